@@ -5,7 +5,10 @@
      a segment head, equal label ⇔ related
   §3 the relabel walk: decoupling into a BFS list + a fold, characterisation of the BFS list
   §4 effect of the fold on lineage / track ids
-  §5 invariant preservation for the user actions
+  §5 the user actions `uDeleteEdge`, `uAddEdge`, `uSwap`: shape lemmas, abstract effects,
+     preservation of the invariant bundles `tk_LinInv` / `tk_TidInv`, frame lemmas
+  §6 Boolean checkers (`tk_forestB`, `tk_linOKB`, `tk_tidOKB`, …) + the example state
+  All non-dotted helper names carry the prefix `tk_` to avoid clashes with other lemma files.
 -/
 import FtProofs.SessionSpec
 namespace Ft
@@ -13,16 +16,16 @@ namespace St
 
 /-! ## §1 basic facts -/
 
-theorem find_id_some {l : List NodeRec} {n : Node} {r : NodeRec}
+theorem tk_find_id_some {l : List NodeRec} {n : Node} {r : NodeRec}
     (h : l.find? (·.id == n) = some r) : r.id = n ∧ r ∈ l := by
   have h1 := List.find?_some h
   have h2 := List.mem_of_find?_eq_some h
   exact ⟨by simpa using h1, h2⟩
 
-theorem findNode_id {s : St} {n : Node} {r : NodeRec} (h : s.findNode n = some r) :
-    r.id = n ∧ r ∈ s.nodes := find_id_some h
+theorem tk_findNode_id {s : St} {n : Node} {r : NodeRec} (h : s.findNode n = some r) :
+    r.id = n ∧ r ∈ s.nodes := tk_find_id_some h
 
-theorem mem_ids_iff {s : St} {n : Node} : n ∈ s.ids ↔ ∃ r, s.findNode n = some r := by
+theorem tk_mem_ids_iff {s : St} {n : Node} : n ∈ s.ids ↔ ∃ r, s.findNode n = some r := by
   unfold ids findNode
   constructor
   · intro h
@@ -33,21 +36,21 @@ theorem mem_ids_iff {s : St} {n : Node} : n ∈ s.ids ↔ ∃ r, s.findNode n = 
       have := List.find?_eq_none.1 hf r hr
       simp at this
   · rintro ⟨r, hr⟩
-    have := find_id_some hr
+    have := tk_find_id_some hr
     exact List.mem_map.2 ⟨r, this.2, this.1⟩
 
-theorem hasNode_iff {s : St} {n : Node} : s.hasNode n = true ↔ n ∈ s.ids := by
-  rw [mem_ids_iff]; unfold hasNode
+theorem tk_hasNode_iff {s : St} {n : Node} : s.hasNode n = true ↔ n ∈ s.ids := by
+  rw [tk_mem_ids_iff]; unfold hasNode
   cases s.findNode n <;> simp
 
 /-- time as a total function -/
-def tm (s : St) (n : Node) : Nat := (s.timeOf n).getD 0
+def tk_tm (s : St) (n : Node) : Nat := (s.timeOf n).getD 0
 
-theorem timeOf_of_mem {s : St} {n : Node} (h : n ∈ s.ids) : s.timeOf n = some (s.tm n) := by
-  rcases mem_ids_iff.1 h with ⟨r, hr⟩
-  simp [tm, timeOf, hr]
+theorem tk_timeOf_of_mem {s : St} {n : Node} (h : n ∈ s.ids) : s.timeOf n = some (s.tk_tm n) := by
+  rcases tk_mem_ids_iff.1 h with ⟨r, hr⟩
+  simp [tk_tm, timeOf, hr]
 
-theorem mem_succs {s : St} {u c : Node} : c ∈ s.succs u ↔ (u, c) ∈ s.edgeList := by
+theorem tk_mem_succs {s : St} {u c : Node} : c ∈ s.succs u ↔ (u, c) ∈ s.edgeList := by
   unfold succs edgeList
   simp only [List.mem_map, List.mem_filter]
   constructor
@@ -58,7 +61,7 @@ theorem mem_succs {s : St} {u c : Node} : c ∈ s.succs u ↔ (u, c) ∈ s.edgeL
   · rintro ⟨r, hr, he⟩
     refine ⟨r, ⟨hr, ?_⟩, ?_⟩ <;> simp [he]
 
-theorem mem_preds {s : St} {p v : Node} : p ∈ s.preds v ↔ (p, v) ∈ s.edgeList := by
+theorem tk_mem_preds {s : St} {p v : Node} : p ∈ s.preds v ↔ (p, v) ∈ s.edgeList := by
   unfold preds edgeList
   simp only [List.mem_map, List.mem_filter]
   constructor
@@ -69,7 +72,7 @@ theorem mem_preds {s : St} {p v : Node} : p ∈ s.preds v ↔ (p, v) ∈ s.edgeL
   · rintro ⟨r, hr, he⟩
     refine ⟨r, ⟨hr, ?_⟩, ?_⟩ <;> simp [he]
 
-theorem eq_of_length_le_one {α} {l : List α} (h : l.length ≤ 1) {a b : α}
+theorem tk_eq_of_length_le_one {α} {l : List α} (h : l.length ≤ 1) {a b : α}
     (ha : a ∈ l) (hb : b ∈ l) : a = b := by
   match l, h with
   | [x], _ => simp at ha hb; rw [ha, hb]
@@ -77,19 +80,19 @@ theorem eq_of_length_le_one {α} {l : List α} (h : l.length ≤ 1) {a b : α}
 
 theorem Forest.par_unique {s : St} (hF : s.Forest) {p q c : Node}
     (h1 : (p, c) ∈ s.edgeList) (h2 : (q, c) ∈ s.edgeList) : p = q :=
-  eq_of_length_le_one (hF.indeg_le c) (mem_preds.2 h1) (mem_preds.2 h2)
+  tk_eq_of_length_le_one (hF.indeg_le c) (tk_mem_preds.2 h1) (tk_mem_preds.2 h2)
 
 theorem Forest.tm_lt {s : St} (hF : s.Forest) {u v : Node} (h : (u, v) ∈ s.edgeList) :
-    s.tm u < s.tm v :=
-  hF.forward _ h _ _ (timeOf_of_mem (hF.src_mem _ h)) (timeOf_of_mem (hF.dst_mem _ h))
+    s.tk_tm u < s.tk_tm v :=
+  hF.forward _ h _ _ (tk_timeOf_of_mem (hF.src_mem _ h)) (tk_timeOf_of_mem (hF.dst_mem _ h))
 
-theorem outdeg_pos {s : St} {u c : Node} (h : (u, c) ∈ s.edgeList) : 1 ≤ s.outdeg u := by
+theorem tk_outdeg_pos {s : St} {u c : Node} (h : (u, c) ∈ s.edgeList) : 1 ≤ s.outdeg u := by
   unfold outdeg
-  exact List.length_pos_of_mem (mem_succs.2 h)
+  exact List.length_pos_of_mem (tk_mem_succs.2 h)
 
-theorem child_unique {s : St} {u c c' : Node} (ho : s.outdeg u = 1)
+theorem tk_child_unique {s : St} {u c c' : Node} (ho : s.outdeg u = 1)
     (h1 : (u, c) ∈ s.edgeList) (h2 : (u, c') ∈ s.edgeList) : c = c' :=
-  eq_of_length_le_one (by unfold outdeg at ho; omega) (mem_succs.2 h1) (mem_succs.2 h2)
+  tk_eq_of_length_le_one (by unfold outdeg at ho; omega) (tk_mem_succs.2 h1) (tk_mem_succs.2 h2)
 
 /-! ## §2 generic theory -/
 
@@ -126,7 +129,7 @@ theorem Anc.trans {s : St} {a b c : Node} (h1 : s.Anc a b) (h2 : s.Anc b c) : s.
   | refl => exact h1
   | step p c _ he ih => exact Anc.step _ p c ih he
 
-theorem Anc.tm_le {s : St} (hF : s.Forest) {a b : Node} (h : s.Anc a b) : s.tm a ≤ s.tm b := by
+theorem Anc.tm_le {s : St} (hF : s.Forest) {a b : Node} (h : s.Anc a b) : s.tk_tm a ≤ s.tk_tm b := by
   induction h with
   | refl => exact Nat.le_refl _
   | step p c _ he ih => exact Nat.le_trans ih (Nat.le_of_lt (hF.tm_lt he))
@@ -158,8 +161,8 @@ theorem Anc.tail {s : St} {a b : Node} (h : s.Anc a b) :
   | step p c h he => exact Or.inr ⟨p, h, he⟩
 
 /-- every node has a root ancestor -/
-theorem exists_root {s : St} (hF : s.Forest) :
-    ∀ t n, n ∈ s.ids → s.tm n = t → ∃ r, s.IsRoot r ∧ s.Anc r n := by
+theorem tk_exists_root {s : St} (hF : s.Forest) :
+    ∀ t n, n ∈ s.ids → s.tk_tm n = t → ∃ r, s.IsRoot r ∧ s.Anc r n := by
   intro t
   induction t using Nat.strongRecOn with
   | _ t ih =>
@@ -167,7 +170,7 @@ theorem exists_root {s : St} (hF : s.Forest) :
     by_cases hp : ∃ p, (p, n) ∈ s.edgeList
     · rcases hp with ⟨p, hp⟩
       have hlt := hF.tm_lt hp
-      rcases ih (s.tm p) (by omega) p (hF.src_mem _ hp) rfl with ⟨r, hr, hra⟩
+      rcases ih (s.tk_tm p) (by omega) p (hF.src_mem _ hp) rfl with ⟨r, hr, hra⟩
       exact ⟨r, hr, Anc.step _ p n hra hp⟩
     · exact ⟨n, ⟨hn, fun p hpn => hp ⟨p, hpn⟩⟩, Anc.refl n⟩
 
@@ -178,12 +181,12 @@ theorem LinOK.of_conn {s : St} (hL : s.LinOK) {a b : Node} (h : s.Conn a b) :
   | down p c _ he ih => rw [ih]; exact (hL.along _ he).symm
   | up p c _ he ih => rw [ih]; exact hL.along _ he
 
-theorem lin_iff_conn {s : St} (hF : s.Forest) (hL : s.LinOK) {a b : Node}
+theorem tk_lin_iff_conn {s : St} (hF : s.Forest) (hL : s.LinOK) {a b : Node}
     (ha : a ∈ s.ids) (hb : b ∈ s.ids) : s.linOf a = s.linOf b ↔ s.Conn a b := by
   constructor
   · intro h
-    rcases exists_root hF _ a ha rfl with ⟨ra, hra, haa⟩
-    rcases exists_root hF _ b hb rfl with ⟨rb, hrb, hbb⟩
+    rcases tk_exists_root hF _ a ha rfl with ⟨ra, hra, haa⟩
+    rcases tk_exists_root hF _ b hb rfl with ⟨rb, hrb, hbb⟩
     have ca := haa.conn hra.1
     have cb := hbb.conn hrb.1
     have : ra = rb := by
@@ -198,9 +201,9 @@ theorem lin_iff_conn {s : St} (hF : s.Forest) (hL : s.LinOK) {a b : Node}
 /-! ### segments -/
 
 /-- the part of a segment at or below a node: downward chain along non-division edges -/
-inductive SegDown (s : St) : Node → Node → Prop where
-  | refl (n : Node) : SegDown s n n
-  | step (a p c : Node) : SegDown s a p → (p, c) ∈ s.edgeList → s.outdeg p = 1 → SegDown s a c
+inductive tk_SegDown (s : St) : Node → Node → Prop where
+  | refl (n : Node) : tk_SegDown s n n
+  | step (a p c : Node) : tk_SegDown s a p → (p, c) ∈ s.edgeList → s.outdeg p = 1 → tk_SegDown s a c
 
 theorem SameSeg.mem_left {s : St} {a b : Node} (h : s.SameSeg a b) : a ∈ s.ids := by
   induction h with
@@ -233,46 +236,46 @@ theorem SameSeg.conn {s : St} {a b : Node} (h : s.SameSeg a b) : s.Conn a b := b
   | down p c _ he _ ih => exact Conn.down _ p c ih he
   | up p c _ he _ ih => exact Conn.up _ p c ih he
 
-theorem SegDown.sameSeg {s : St} {a b : Node} (ha : a ∈ s.ids) (h : s.SegDown a b) :
+theorem tk_SegDown.sameSeg {s : St} {a b : Node} (ha : a ∈ s.ids) (h : s.tk_SegDown a b) :
     s.SameSeg a b := by
   induction h with
   | refl => exact SameSeg.refl _ ha
   | step p c _ he ho ih => exact SameSeg.down _ p c ih he ho
 
-theorem SegDown.anc {s : St} {a b : Node} (h : s.SegDown a b) : s.Anc a b := by
+theorem tk_SegDown.anc {s : St} {a b : Node} (h : s.tk_SegDown a b) : s.Anc a b := by
   induction h with
   | refl => exact Anc.refl _
   | step p c _ he _ ih => exact Anc.step _ p c ih he
 
-theorem SegDown.trans {s : St} {a b c : Node} (h1 : s.SegDown a b) (h2 : s.SegDown b c) :
-    s.SegDown a c := by
+theorem tk_SegDown.trans {s : St} {a b c : Node} (h1 : s.tk_SegDown a b) (h2 : s.tk_SegDown b c) :
+    s.tk_SegDown a c := by
   induction h2 with
   | refl => exact h1
-  | step p c _ he ho ih => exact SegDown.step _ p c ih he ho
+  | step p c _ he ho ih => exact tk_SegDown.step _ p c ih he ho
 
-/-- head decomposition of `SegDown` -/
-theorem SegDown.head {s : St} {a b : Node} (h : s.SegDown a b) :
-    a = b ∨ (s.outdeg a = 1 ∧ ∃ c, (a, c) ∈ s.edgeList ∧ s.SegDown c b) := by
+/-- head decomposition of `tk_SegDown` -/
+theorem tk_SegDown.head {s : St} {a b : Node} (h : s.tk_SegDown a b) :
+    a = b ∨ (s.outdeg a = 1 ∧ ∃ c, (a, c) ∈ s.edgeList ∧ s.tk_SegDown c b) := by
   induction h with
   | refl => exact Or.inl rfl
   | step p c _ he ho ih =>
     rcases ih with rfl | ⟨h0, c', h1, h2⟩
-    · exact Or.inr ⟨ho, c, he, SegDown.refl c⟩
-    · exact Or.inr ⟨h0, c', h1, SegDown.step _ p c h2 he ho⟩
+    · exact Or.inr ⟨ho, c, he, tk_SegDown.refl c⟩
+    · exact Or.inr ⟨h0, c', h1, tk_SegDown.step _ p c h2 he ho⟩
 
-theorem SegDown.tail {s : St} {a b : Node} (h : s.SegDown a b) :
-    a = b ∨ ∃ p, s.SegDown a p ∧ (p, b) ∈ s.edgeList ∧ s.outdeg p = 1 := by
+theorem tk_SegDown.tail {s : St} {a b : Node} (h : s.tk_SegDown a b) :
+    a = b ∨ ∃ p, s.tk_SegDown a p ∧ (p, b) ∈ s.edgeList ∧ s.outdeg p = 1 := by
   cases h with
   | refl => exact Or.inl rfl
   | step p c h he ho => exact Or.inr ⟨p, h, he, ho⟩
 
-theorem SegDown.cons {s : St} {a c b : Node} (he : (a, c) ∈ s.edgeList) (ho : s.outdeg a = 1)
-    (h : s.SegDown c b) : s.SegDown a b :=
-  SegDown.trans (SegDown.step a a c (SegDown.refl a) he ho) h
+theorem tk_SegDown.cons {s : St} {a c b : Node} (he : (a, c) ∈ s.edgeList) (ho : s.outdeg a = 1)
+    (h : s.tk_SegDown c b) : s.tk_SegDown a b :=
+  tk_SegDown.trans (tk_SegDown.step a a c (tk_SegDown.refl a) he ho) h
 
 /-- every node has a segment head above it -/
-theorem exists_head {s : St} (hF : s.Forest) :
-    ∀ t n, n ∈ s.ids → s.tm n = t → ∃ h, s.IsHead h ∧ s.SegDown h n := by
+theorem tk_exists_head {s : St} (hF : s.Forest) :
+    ∀ t n, n ∈ s.ids → s.tk_tm n = t → ∃ h, s.IsHead h ∧ s.tk_SegDown h n := by
   intro t
   induction t using Nat.strongRecOn with
   | _ t ih =>
@@ -281,12 +284,12 @@ theorem exists_head {s : St} (hF : s.Forest) :
     · rcases hp with ⟨p, hp, ho⟩
       have hlt := hF.tm_lt hp
       have ho1 : s.outdeg p = 1 := by
-        have := outdeg_pos hp
+        have := tk_outdeg_pos hp
         have := hF.outdeg_le p
         omega
-      rcases ih (s.tm p) (by omega) p (hF.src_mem _ hp) rfl with ⟨h, hh, hha⟩
-      exact ⟨h, hh, SegDown.step _ p n hha hp ho1⟩
-    · refine ⟨n, ⟨hn, fun p hpn => ?_⟩, SegDown.refl n⟩
+      rcases ih (s.tk_tm p) (by omega) p (hF.src_mem _ hp) rfl with ⟨h, hh, hha⟩
+      exact ⟨h, hh, tk_SegDown.step _ p n hha hp ho1⟩
+    · refine ⟨n, ⟨hn, fun p hpn => ?_⟩, tk_SegDown.refl n⟩
       apply Classical.byContradiction
       intro hne
       exact hp ⟨p, hpn, hne⟩
@@ -298,12 +301,12 @@ theorem TidOK.of_sameSeg {s : St} (hT : s.TidOK) {a b : Node} (h : s.SameSeg a b
   | down p c _ he ho ih => rw [ih]; exact (hT.along _ he ho).symm
   | up p c _ he ho ih => rw [ih]; exact hT.along _ he ho
 
-theorem tid_iff_sameSeg {s : St} (hF : s.Forest) (hT : s.TidOK) {a b : Node}
+theorem tk_tid_iff_sameSeg {s : St} (hF : s.Forest) (hT : s.TidOK) {a b : Node}
     (ha : a ∈ s.ids) (hb : b ∈ s.ids) : s.tidOf a = s.tidOf b ↔ s.SameSeg a b := by
   constructor
   · intro h
-    rcases exists_head hF _ a ha rfl with ⟨ra, hra, haa⟩
-    rcases exists_head hF _ b hb rfl with ⟨rb, hrb, hbb⟩
+    rcases tk_exists_head hF _ a ha rfl with ⟨ra, hra, haa⟩
+    rcases tk_exists_head hF _ b hb rfl with ⟨rb, hrb, hbb⟩
     have ca := haa.sameSeg hra.1
     have cb := hbb.sameSeg hrb.1
     have : ra = rb := by
@@ -331,14 +334,14 @@ theorem IsHead.no_in {s : St} {c p : Node} (h : s.IsHead c) (he : (p, c) ∈ s.e
 
 /-- `SameSeg` nodes hang below the same heads -/
 theorem SameSeg.head_iff {s : St} (hF : s.Forest) {a b : Node} (h : s.SameSeg a b) :
-    ∀ h, s.IsHead h → (s.SegDown h a ↔ s.SegDown h b) := by
+    ∀ h, s.IsHead h → (s.tk_SegDown h a ↔ s.tk_SegDown h b) := by
   induction h with
   | refl => intro h _; exact Iff.rfl
   | down p c _ he ho ih =>
     intro h hh
     rw [ih h hh]
     constructor
-    · intro hd; exact SegDown.step _ p c hd he ho
+    · intro hd; exact tk_SegDown.step _ p c hd he ho
     · intro hd
       cases hd with
       | refl => exact (hh.no_in he ho).elim
@@ -351,19 +354,19 @@ theorem SameSeg.head_iff {s : St} (hF : s.Forest) {a b : Node} (h : s.SameSeg a 
       cases hd with
       | refl => exact (hh.no_in he ho).elim
       | step p' _ hd' he' _ => rw [hF.par_unique he he']; exact hd'
-    · intro hd; exact SegDown.step _ p c hd he ho
+    · intro hd; exact tk_SegDown.step _ p c hd he ho
 
 /-- the part of a segment below one of its nodes is a downward chain -/
-theorem segDown_iff {s : St} (hF : s.Forest) {a n : Node} (ha : a ∈ s.ids) :
-    s.SegDown a n ↔ (s.Anc a n ∧ s.SameSeg a n) := by
+theorem tk_segDown_iff {s : St} (hF : s.Forest) {a n : Node} (ha : a ∈ s.ids) :
+    s.tk_SegDown a n ↔ (s.Anc a n ∧ s.SameSeg a n) := by
   constructor
   · intro h; exact ⟨h.anc, h.sameSeg ha⟩
   · rintro ⟨hanc, hseg⟩
-    rcases exists_head hF _ a ha rfl with ⟨h, hh, hha⟩
-    have hhn : s.SegDown h n := (hseg.head_iff hF h hh).1 hha
+    rcases tk_exists_head hF _ a ha rfl with ⟨h, hh, hha⟩
+    have hhn : s.tk_SegDown h n := (hseg.head_iff hF h hh).1 hha
     clear hseg
     induction hanc with
-    | refl => exact SegDown.refl _
+    | refl => exact tk_SegDown.refl _
     | step p c hap he ih =>
       rcases hhn.tail with rfl | ⟨p', hd', he', ho'⟩
       · -- c is the head and an ancestor of a, while a is an ancestor of p → c: cycle
@@ -373,104 +376,104 @@ theorem segDown_iff {s : St} (hF : s.Forest) {a n : Node} (ha : a ∈ s.ids) :
         omega
       · have hpp : p = p' := hF.par_unique he he'
         subst hpp
-        exact SegDown.step _ p c (ih hd') he ho'
+        exact tk_SegDown.step _ p c (ih hd') he ho'
 
 
 /-! ## §3 the relabel walk, decoupled: a BFS list and a fold over it -/
 
 /-- what a step of the walk does to everything except the `next` queue -/
-structure Core where
+structure tk_Core where
   s : St
   flag : Bool
   tN : List Node
   lN : List Node
 
-def WalkAcc.core (a : WalkAcc) : Core := ⟨a.s, a.flag, a.tNodes, a.lNodes⟩
+def WalkAcc.core (a : WalkAcc) : tk_Core := ⟨a.s, a.flag, a.tNodes, a.lNodes⟩
 
-def visit (old new : Nat) (newLin : Option Nat) (updLin : Bool) (c : Core) (n : Node) : Core :=
+def tk_visit (old new : Nat) (newLin : Option Nat) (updLin : Bool) (c : tk_Core) (n : Node) : tk_Core :=
   let s1 := if updLin then c.s.setLin n newLin else c.s
   let lN := if updLin then c.lN ++ [n] else c.lN
   if c.flag && s1.tidOf n == some old then ⟨s1.setTid n new, true, c.tN ++ [n], lN⟩
   else ⟨s1, false, c.tN, lN⟩
 
-theorem walkNode_core (old new nl ul) (a : WalkAcc) (n : Node) :
-    (walkNode old new nl ul a n).core = visit old new nl ul a.core n := by
-  unfold walkNode visit WalkAcc.core
+theorem tk_walkNode_core (old new nl ul) (a : WalkAcc) (n : Node) :
+    (walkNode old new nl ul a n).core = tk_visit old new nl ul a.core n := by
+  unfold walkNode tk_visit WalkAcc.core
   cases a.flag <;> cases ul <;> simp <;> split <;> simp_all
 
-theorem updNode_edges (s : St) (n : Node) (f) : (s.updNode n f).edges = s.edges := rfl
-theorem setLin_edges (s : St) (n : Node) (l) : (s.setLin n l).edges = s.edges := rfl
-theorem setTid_edges (s : St) (n : Node) (l) : (s.setTid n l).edges = s.edges := rfl
+theorem tk_updNode_edges (s : St) (n : Node) (f) : (s.updNode n f).edges = s.edges := rfl
+theorem tk_setLin_edges (s : St) (n : Node) (l) : (s.setLin n l).edges = s.edges := rfl
+theorem tk_setTid_edges (s : St) (n : Node) (l) : (s.setTid n l).edges = s.edges := rfl
 
-theorem visit_edges (old new nl ul) (c : Core) (n : Node) :
-    (visit old new nl ul c n).s.edges = c.s.edges := by
-  unfold visit
-  cases ul <;> simp <;> split <;> simp [setLin_edges, setTid_edges]
+theorem tk_visit_edges (old new nl ul) (c : tk_Core) (n : Node) :
+    (tk_visit old new nl ul c n).s.edges = c.s.edges := by
+  unfold tk_visit
+  cases ul <;> simp <;> split <;> simp [tk_setLin_edges, tk_setTid_edges]
 
-theorem walkNode_next (old new nl ul) (a : WalkAcc) (n : Node) :
+theorem tk_walkNode_next (old new nl ul) (a : WalkAcc) (n : Node) :
     (walkNode old new nl ul a n).next = a.next ++ a.s.succs n := by
-  have h := visit_edges old new nl ul a.core n
-  rw [← walkNode_core] at h
+  have h := tk_visit_edges old new nl ul a.core n
+  rw [← tk_walkNode_core] at h
   have : (walkNode old new nl ul a n).next = a.next ++ (walkNode old new nl ul a n).s.succs n := by
     unfold walkNode; rfl
   rw [this]
   unfold succs
   rw [show (walkNode old new nl ul a n).s.edges = a.s.edges from h]
 
-theorem foldl_visit_edges (old new nl ul) (l : List Node) (c : Core) :
-    (l.foldl (visit old new nl ul) c).s.edges = c.s.edges := by
+theorem tk_foldl_visit_edges (old new nl ul) (l : List Node) (c : tk_Core) :
+    (l.foldl (tk_visit old new nl ul) c).s.edges = c.s.edges := by
   induction l generalizing c with
   | nil => rfl
-  | cons x l ih => rw [List.foldl_cons, ih, visit_edges]
+  | cons x l ih => rw [List.foldl_cons, ih, tk_visit_edges]
 
-theorem foldl_walkNode (old new nl ul) (l : List Node) (a : WalkAcc) :
-    (l.foldl (walkNode old new nl ul) a).core = l.foldl (visit old new nl ul) a.core ∧
+theorem tk_foldl_walkNode (old new nl ul) (l : List Node) (a : WalkAcc) :
+    (l.foldl (walkNode old new nl ul) a).core = l.foldl (tk_visit old new nl ul) a.core ∧
     (l.foldl (walkNode old new nl ul) a).next = a.next ++ l.flatMap a.s.succs := by
   induction l generalizing a with
   | nil => simp
   | cons x l ih =>
     rw [List.foldl_cons, List.foldl_cons, List.flatMap_cons]
     rcases ih (walkNode old new nl ul a x) with ⟨h1, h2⟩
-    rw [h1, h2, walkNode_core, walkNode_next, List.append_assoc]
+    rw [h1, h2, tk_walkNode_core, tk_walkNode_next, List.append_assoc]
     refine ⟨rfl, ?_⟩
     have he : (walkNode old new nl ul a x).s.edges = a.s.edges := by
-      have := visit_edges old new nl ul a.core x
-      rw [← walkNode_core] at this; exact this
+      have := tk_visit_edges old new nl ul a.core x
+      rw [← tk_walkNode_core] at this; exact this
     have : (walkNode old new nl ul a x).s.succs = a.s.succs := by
       funext u; unfold succs; rw [he]
     rw [this]
 
 /-- the BFS order of the walk: level by level -/
-def bfs (succ : Node → List Node) : Nat → List Node → List Node
+def tk_bfs (succ : Node → List Node) : Nat → List Node → List Node
   | 0, _ => []
   | _ + 1, [] => []
-  | f + 1, curr => curr ++ bfs succ f (curr.flatMap succ)
+  | f + 1, curr => curr ++ tk_bfs succ f (curr.flatMap succ)
 
-theorem walkLevels_core (old new nl ul) (fuel : Nat) (a : WalkAcc) :
+theorem tk_walkLevels_core (old new nl ul) (fuel : Nat) (a : WalkAcc) :
     (walkLevels old new nl ul fuel a).core =
-      (bfs a.s.succs fuel a.next).foldl (visit old new nl ul) a.core := by
+      (tk_bfs a.s.succs fuel a.next).foldl (tk_visit old new nl ul) a.core := by
   induction fuel generalizing a with
-  | zero => simp [walkLevels, bfs]
+  | zero => simp [walkLevels, tk_bfs]
   | succ f ih =>
     unfold walkLevels
     cases hn : a.next with
-    | nil => simp [bfs]
+    | nil => simp [tk_bfs]
     | cons x xs =>
       simp only
       rw [ih]
-      rcases foldl_walkNode old new nl ul (x :: xs) { a with next := [] } with ⟨h1, h2⟩
+      rcases tk_foldl_walkNode old new nl ul (x :: xs) { a with next := [] } with ⟨h1, h2⟩
       rw [h1, h2]
       have he : ((x :: xs).foldl (walkNode old new nl ul) { a with next := [] }).s.edges = a.s.edges := by
-        have := foldl_visit_edges old new nl ul (x :: xs) a.core
+        have := tk_foldl_visit_edges old new nl ul (x :: xs) a.core
         have h1' : ((x :: xs).foldl (walkNode old new nl ul) { a with next := [] }).core.s
-            = ((x :: xs).foldl (visit old new nl ul) a.core).s := by rw [h1]; rfl
+            = ((x :: xs).foldl (tk_visit old new nl ul) a.core).s := by rw [h1]; rfl
         show ((x :: xs).foldl (walkNode old new nl ul) { a with next := [] }).core.s.edges = _
         rw [h1']; exact this
       have hs : ((x :: xs).foldl (walkNode old new nl ul) { a with next := [] }).s.succs = a.s.succs := by
         funext u; unfold succs; rw [he]
       rw [hs]
-      show _ = (bfs a.s.succs (f + 1) (x :: xs)).foldl _ _
-      rw [bfs]
+      show _ = (tk_bfs a.s.succs (f + 1) (x :: xs)).foldl _ _
+      rw [tk_bfs]
       · rw [List.foldl_append]; simp [WalkAcc.core]
       · intro h; cases h
 
@@ -478,21 +481,21 @@ theorem walkLevels_core (old new nl ul) (fuel : Nat) (a : WalkAcc) :
 /-! ### the BFS list in a forest -/
 
 /-- `n` is reached from `a` by exactly `k` edges -/
-def Desc (s : St) (a : Node) : Nat → Node → Prop
+def tk_Desc (s : St) (a : Node) : Nat → Node → Prop
   | 0, n => n = a
-  | k + 1, n => ∃ p, Desc s a k p ∧ (p, n) ∈ s.edgeList
+  | k + 1, n => ∃ p, tk_Desc s a k p ∧ (p, n) ∈ s.edgeList
 
-theorem Desc.anc {s : St} {a : Node} : ∀ {k n}, s.Desc a k n → s.Anc a n
+theorem tk_Desc.anc {s : St} {a : Node} : ∀ {k n}, s.tk_Desc a k n → s.Anc a n
   | 0, _, h => by cases h; exact Anc.refl _
   | _ + 1, _, ⟨p, hp, he⟩ => Anc.step _ p _ hp.anc he
 
-theorem Anc.desc {s : St} {a n : Node} (h : s.Anc a n) : ∃ k, s.Desc a k n := by
+theorem Anc.desc {s : St} {a n : Node} (h : s.Anc a n) : ∃ k, s.tk_Desc a k n := by
   induction h with
   | refl => exact ⟨0, rfl⟩
   | step p c _ he ih => rcases ih with ⟨k, hk⟩; exact ⟨k + 1, p, hk, he⟩
 
-theorem Desc.unique {s : St} (hF : s.Forest) {a : Node} :
-    ∀ {k j n}, s.Desc a k n → s.Desc a j n → k = j
+theorem tk_Desc.unique {s : St} (hF : s.Forest) {a : Node} :
+    ∀ {k j n}, s.tk_Desc a k n → s.tk_Desc a j n → k = j
   | 0, 0, _, _, _ => rfl
   | 0, j + 1, n, h1, ⟨p, hp, he⟩ => by
     cases h1
@@ -507,71 +510,71 @@ theorem Desc.unique {s : St} (hF : s.Forest) {a : Node} :
   | k + 1, j + 1, n, ⟨p, hp, he⟩, ⟨q, hq, he'⟩ => by
     have := hF.par_unique he he'
     subst this
-    rw [Desc.unique hF hp hq]
+    rw [tk_Desc.unique hF hp hq]
 
-theorem Desc.prefix {s : St} {a : Node} : ∀ {k n} d, s.Desc a k n → d ≤ k → ∃ m, s.Desc a d m
+theorem tk_Desc.prefix {s : St} {a : Node} : ∀ {k n} d, s.tk_Desc a k n → d ≤ k → ∃ m, s.tk_Desc a d m
   | 0, n, d, h, hd => by
     have : d = 0 := by omega
     subst this; exact ⟨n, h⟩
   | k + 1, n, d, ⟨p, hp, he⟩, hd => by
     by_cases h : d = k + 1
     · subst h; exact ⟨n, p, hp, he⟩
-    · exact Desc.prefix d hp (by omega)
+    · exact tk_Desc.prefix d hp (by omega)
 
-theorem filter_length_mono {α} (p q : α → Bool) (hqp : ∀ x, q x = true → p x = true) :
+theorem tk_filter_length_mono {α} (p q : α → Bool) (hqp : ∀ x, q x = true → p x = true) :
     ∀ (l : List α), (l.filter q).length ≤ (l.filter p).length
   | [] => by simp
   | y :: l => by
-    have ih := filter_length_mono p q hqp l
+    have ih := tk_filter_length_mono p q hqp l
     cases hq : q y
     · cases hp : p y <;> simp [hq, hp] <;> omega
     · simp [hq, hqp y hq]; omega
 
-theorem filter_length_lt {α} (p q : α → Bool) (hqp : ∀ x, q x = true → p x = true)
+theorem tk_filter_length_lt {α} (p q : α → Bool) (hqp : ∀ x, q x = true → p x = true)
     (a : α) (hpa : p a = true) (hqa : q a = false) :
     ∀ (l : List α), a ∈ l → (l.filter q).length + 1 ≤ (l.filter p).length
   | [], ha => by cases ha
   | x :: l, ha => by
-    have hmono := filter_length_mono p q hqp l
+    have hmono := tk_filter_length_mono p q hqp l
     rcases List.mem_cons.1 ha with rfl | ha'
     · simp [hpa, hqa]; omega
-    · have ih := filter_length_lt p q hqp a hpa hqa l ha'
+    · have ih := tk_filter_length_lt p q hqp a hpa hqa l ha'
       cases hq : q x
       · cases hp : p x <;> simp [hq, hp] <;> omega
       · simp [hq, hqp x hq]; omega
 
-theorem Desc.bound {s : St} (hF : s.Forest) {a : Node} (ha : a ∈ s.ids) :
-    ∀ {k n}, s.Desc a k n →
-      n ∈ s.ids ∧ k + 1 ≤ (s.ids.filter (fun x => decide (s.tm x ≤ s.tm n))).length
+theorem tk_Desc.bound {s : St} (hF : s.Forest) {a : Node} (ha : a ∈ s.ids) :
+    ∀ {k n}, s.tk_Desc a k n →
+      n ∈ s.ids ∧ k + 1 ≤ (s.ids.filter (fun x => decide (s.tk_tm x ≤ s.tk_tm n))).length
   | 0, n, h => by
     cases h
     refine ⟨ha, ?_⟩
-    have : a ∈ s.ids.filter (fun x => decide (s.tm x ≤ s.tm a)) := by
+    have : a ∈ s.ids.filter (fun x => decide (s.tk_tm x ≤ s.tk_tm a)) := by
       simp [List.mem_filter, ha]
     have := List.length_pos_of_mem this
     omega
   | k + 1, n, ⟨p, hp, he⟩ => by
     have hn := hF.dst_mem _ he
     refine ⟨hn, ?_⟩
-    have ih := (Desc.bound hF ha hp).2
+    have ih := (tk_Desc.bound hF ha hp).2
     have hlt := hF.tm_lt he
-    have := filter_length_lt (fun x => decide (s.tm x ≤ s.tm n)) (fun x => decide (s.tm x ≤ s.tm p))
+    have := tk_filter_length_lt (fun x => decide (s.tk_tm x ≤ s.tk_tm n)) (fun x => decide (s.tk_tm x ≤ s.tk_tm p))
       (by intro x hx; simp at hx ⊢; omega) n (by simp) (by simp; omega) s.ids hn
     omega
 
-theorem Desc.lt_length {s : St} (hF : s.Forest) {a : Node} (ha : a ∈ s.ids) {k n}
-    (h : s.Desc a k n) : k < s.nodes.length := by
+theorem tk_Desc.lt_length {s : St} (hF : s.Forest) {a : Node} (ha : a ∈ s.ids) {k n}
+    (h : s.tk_Desc a k n) : k < s.nodes.length := by
   have h1 := (h.bound hF ha).2
-  have h2 := List.length_filter_le (fun x => decide (s.tm x ≤ s.tm n)) s.ids
+  have h2 := List.length_filter_le (fun x => decide (s.tk_tm x ≤ s.tk_tm n)) s.ids
   have : s.ids.length = s.nodes.length := by simp [ids]
   omega
 
-theorem succs_nodup_aux (u : Node) : ∀ (es : List EdgeRec), (es.map (·.e)).Nodup →
+theorem tk_succs_nodup_aux (u : Node) : ∀ (es : List EdgeRec), (es.map (·.e)).Nodup →
     ((es.filter (·.e.1 == u)).map (·.e.2)).Nodup
   | [], _ => by simp
   | r :: es, h => by
     rw [List.map_cons, List.nodup_cons] at h
-    have ih := succs_nodup_aux u es h.2
+    have ih := tk_succs_nodup_aux u es h.2
     simp only [List.filter_cons]
     split
     · rename_i hu
@@ -588,7 +591,7 @@ theorem succs_nodup_aux (u : Node) : ∀ (es : List EdgeRec), (es.map (·.e)).No
     · exact ih
 
 theorem Forest.succs_nodup {s : St} (hF : s.Forest) (u : Node) : (s.succs u).Nodup :=
-  succs_nodup_aux u s.edges hF.nodup_edges
+  tk_succs_nodup_aux u s.edges hF.nodup_edges
 
 theorem Forest.flatMap_succs_nodup {s : St} (hF : s.Forest) :
     ∀ (l : List Node), l.Nodup → (l.flatMap s.succs).Nodup
@@ -600,40 +603,40 @@ theorem Forest.flatMap_succs_nodup {s : St} (hF : s.Forest) :
     intro c hc c' hc' hcc
     subst hcc
     rcases List.mem_flatMap.1 hc' with ⟨y, hy, hcy⟩
-    have := hF.par_unique (mem_succs.1 hc) (mem_succs.1 hcy)
+    have := hF.par_unique (tk_mem_succs.1 hc) (tk_mem_succs.1 hcy)
     subst this
     exact h.1 hy
 
-theorem bfs_spec {s : St} (hF : s.Forest) {start : Node} :
-    ∀ (f : Nat) (curr : List Node) (d : Nat), curr.Nodup → (∀ m, m ∈ curr ↔ s.Desc start d m) →
-      (bfs s.succs f curr).Nodup ∧
-      ∀ n, n ∈ bfs s.succs f curr ↔ ∃ k, d ≤ k ∧ k < d + f ∧ s.Desc start k n
+theorem tk_bfs_spec {s : St} (hF : s.Forest) {start : Node} :
+    ∀ (f : Nat) (curr : List Node) (d : Nat), curr.Nodup → (∀ m, m ∈ curr ↔ s.tk_Desc start d m) →
+      (tk_bfs s.succs f curr).Nodup ∧
+      ∀ n, n ∈ tk_bfs s.succs f curr ↔ ∃ k, d ≤ k ∧ k < d + f ∧ s.tk_Desc start k n
   | 0, curr, d, _, _ => by
-    refine ⟨by simp [bfs], fun n => ?_⟩
-    simp only [bfs, List.not_mem_nil, false_iff]
+    refine ⟨by simp [tk_bfs], fun n => ?_⟩
+    simp only [tk_bfs, List.not_mem_nil, false_iff]
     rintro ⟨k, h1, h2, _⟩; omega
   | f + 1, [], d, _, hm => by
-    refine ⟨by simp [bfs], fun n => ?_⟩
-    simp only [bfs, List.not_mem_nil, false_iff]
+    refine ⟨by simp [tk_bfs], fun n => ?_⟩
+    simp only [tk_bfs, List.not_mem_nil, false_iff]
     rintro ⟨k, h1, _, h3⟩
     rcases h3.prefix d h1 with ⟨m, hm'⟩
     exact List.not_mem_nil ((hm m).2 hm')
   | f + 1, x :: xs, d, hnd, hm => by
-    have hnext : ∀ c, c ∈ (x :: xs).flatMap s.succs ↔ s.Desc start (d + 1) c := by
+    have hnext : ∀ c, c ∈ (x :: xs).flatMap s.succs ↔ s.tk_Desc start (d + 1) c := by
       intro c
       rw [List.mem_flatMap]
       constructor
-      · rintro ⟨m, hm1, hm2⟩; exact ⟨m, (hm m).1 hm1, mem_succs.1 hm2⟩
-      · rintro ⟨m, hm1, hm2⟩; exact ⟨m, (hm m).2 hm1, mem_succs.2 hm2⟩
-    rcases bfs_spec hF f _ (d + 1) (hF.flatMap_succs_nodup _ hnd) hnext with ⟨ih1, ih2⟩
-    rw [bfs]
+      · rintro ⟨m, hm1, hm2⟩; exact ⟨m, (hm m).1 hm1, tk_mem_succs.1 hm2⟩
+      · rintro ⟨m, hm1, hm2⟩; exact ⟨m, (hm m).2 hm1, tk_mem_succs.2 hm2⟩
+    rcases tk_bfs_spec hF f _ (d + 1) (hF.flatMap_succs_nodup _ hnd) hnext with ⟨ih1, ih2⟩
+    rw [tk_bfs]
     · refine ⟨?_, fun n => ?_⟩
       · rw [List.nodup_append]
         refine ⟨hnd, ih1, ?_⟩
         intro a ha b hb hab
         subst hab
         rcases (ih2 a).1 hb with ⟨k, hk1, _, hk3⟩
-        have := Desc.unique hF ((hm a).1 ha) hk3
+        have := tk_Desc.unique hF ((hm a).1 ha) hk3
         omega
       · rw [List.mem_append, ih2 n, hm n]
         constructor
@@ -647,12 +650,12 @@ theorem bfs_spec {s : St} (hF : s.Forest) {start : Node} :
     · intro h; cases h
 
 /-- **the walk visits exactly the descendants-or-self of `start`, each once** -/
-theorem bfs_walk {s : St} (hF : s.Forest) {start : Node} (hs : start ∈ s.ids) :
-    (bfs s.succs (s.nodes.length + 1) [start]).Nodup ∧
-    ∀ n, n ∈ bfs s.succs (s.nodes.length + 1) [start] ↔ s.Anc start n := by
-  have h0 : ∀ m, m ∈ [start] ↔ s.Desc start 0 m := by
-    intro m; simp only [Desc, List.mem_singleton]
-  rcases bfs_spec hF (s.nodes.length + 1) [start] 0 (by simp) h0 with ⟨h1, h2⟩
+theorem tk_bfs_walk {s : St} (hF : s.Forest) {start : Node} (hs : start ∈ s.ids) :
+    (tk_bfs s.succs (s.nodes.length + 1) [start]).Nodup ∧
+    ∀ n, n ∈ tk_bfs s.succs (s.nodes.length + 1) [start] ↔ s.Anc start n := by
+  have h0 : ∀ m, m ∈ [start] ↔ s.tk_Desc start 0 m := by
+    intro m; simp only [tk_Desc, List.mem_singleton]
+  rcases tk_bfs_spec hF (s.nodes.length + 1) [start] 0 (by simp) h0 with ⟨h1, h2⟩
   refine ⟨h1, fun n => ?_⟩
   rw [h2]
   constructor
@@ -664,30 +667,30 @@ theorem bfs_walk {s : St} (hF : s.Forest) {start : Node} (hs : start ∈ s.ids) 
 
 /-! ## §4 effect of the fold on the node attributes -/
 
-theorem find_map_id (g : NodeRec → NodeRec) (hg : ∀ r, (g r).id = r.id) (m : Node) :
+theorem tk_find_map_id (g : NodeRec → NodeRec) (hg : ∀ r, (g r).id = r.id) (m : Node) :
     ∀ l : List NodeRec, (l.map g).find? (·.id == m) = (l.find? (·.id == m)).map g
   | [] => rfl
   | r :: l => by
     simp only [List.map_cons, List.find?_cons, hg]
     cases r.id == m
-    · simpa using find_map_id g hg m l
+    · simpa using tk_find_map_id g hg m l
     · rfl
 
-theorem findNode_updNode (s : St) (n : Node) (f : NodeRec → NodeRec) (hf : ∀ r, (f r).id = r.id)
+theorem tk_findNode_updNode (s : St) (n : Node) (f : NodeRec → NodeRec) (hf : ∀ r, (f r).id = r.id)
     (m : Node) : (s.updNode n f).findNode m =
       (s.findNode m).map (fun r => if r.id == n then f r else r) := by
   unfold findNode updNode
-  exact find_map_id _ (by intro r; split <;> simp [hf]) m s.nodes
+  exact tk_find_map_id _ (by intro r; split <;> simp [hf]) m s.nodes
 
-theorem findNode_setLin (s : St) (n l m) : (s.setLin n l).findNode m =
+theorem tk_findNode_setLin (s : St) (n l m) : (s.setLin n l).findNode m =
     (s.findNode m).map (fun r => if r.id == n then { r with lin := l } else r) :=
-  findNode_updNode s n (fun r => { r with lin := l }) (fun _ => rfl) m
+  tk_findNode_updNode s n (fun r => { r with lin := l }) (fun _ => rfl) m
 
-theorem findNode_setTid (s : St) (n l m) : (s.setTid n l).findNode m =
+theorem tk_findNode_setTid (s : St) (n l m) : (s.setTid n l).findNode m =
     (s.findNode m).map (fun r => if r.id == n then { r with tid := l } else r) :=
-  findNode_updNode s n (fun r => { r with tid := l }) (fun _ => rfl) m
+  tk_findNode_updNode s n (fun r => { r with tid := l }) (fun _ => rfl) m
 
-theorem ids_updNode (s : St) (n : Node) (f : NodeRec → NodeRec) (hf : ∀ r, (f r).id = r.id) :
+theorem tk_ids_updNode (s : St) (n : Node) (f : NodeRec → NodeRec) (hf : ∀ r, (f r).id = r.id) :
     (s.updNode n f).ids = s.ids := by
   unfold ids updNode
   simp only [List.map_map]
@@ -696,102 +699,102 @@ theorem ids_updNode (s : St) (n : Node) (f : NodeRec → NodeRec) (hf : ∀ r, (
   simp only [Function.comp]
   split <;> simp [hf]
 
-theorem ids_setLin (s : St) (n l) : (s.setLin n l).ids = s.ids := ids_updNode _ _ _ (fun _ => rfl)
-theorem ids_setTid (s : St) (n l) : (s.setTid n l).ids = s.ids := ids_updNode _ _ _ (fun _ => rfl)
+theorem tk_ids_setLin (s : St) (n l) : (s.setLin n l).ids = s.ids := tk_ids_updNode _ _ _ (fun _ => rfl)
+theorem tk_ids_setTid (s : St) (n l) : (s.setTid n l).ids = s.ids := tk_ids_updNode _ _ _ (fun _ => rfl)
 
-theorem timeOf_setLin (s : St) (n l m) : (s.setLin n l).timeOf m = s.timeOf m := by
+theorem tk_timeOf_setLin (s : St) (n l m) : (s.setLin n l).timeOf m = s.timeOf m := by
   unfold timeOf
-  rw [findNode_setLin]
+  rw [tk_findNode_setLin]
   cases s.findNode m with
   | none => rfl
   | some r => simp only [Option.map_some]; split <;> rfl
 
-theorem timeOf_setTid (s : St) (n l m) : (s.setTid n l).timeOf m = s.timeOf m := by
+theorem tk_timeOf_setTid (s : St) (n l m) : (s.setTid n l).timeOf m = s.timeOf m := by
   unfold timeOf
-  rw [findNode_setTid]
+  rw [tk_findNode_setTid]
   cases s.findNode m with
   | none => rfl
   | some r => simp only [Option.map_some]; split <;> rfl
 
-theorem tidOf_setLin (s : St) (n l m) : (s.setLin n l).tidOf m = s.tidOf m := by
+theorem tk_tidOf_setLin (s : St) (n l m) : (s.setLin n l).tidOf m = s.tidOf m := by
   unfold tidOf
-  rw [findNode_setLin]
+  rw [tk_findNode_setLin]
   cases s.findNode m with
   | none => rfl
   | some r => simp only [Option.map_some]; split <;> rfl
 
-theorem linOf_setTid (s : St) (n l m) : (s.setTid n l).linOf m = s.linOf m := by
+theorem tk_linOf_setTid (s : St) (n l m) : (s.setTid n l).linOf m = s.linOf m := by
   unfold linOf
-  rw [findNode_setTid]
+  rw [tk_findNode_setTid]
   cases s.findNode m with
   | none => rfl
   | some r => simp only [Option.map_some, Option.bind_some]; split <;> rfl
 
-theorem linOf_setLin_ne (s : St) (n l) {m} (h : m ≠ n) : (s.setLin n l).linOf m = s.linOf m := by
+theorem tk_linOf_setLin_ne (s : St) (n l) {m} (h : m ≠ n) : (s.setLin n l).linOf m = s.linOf m := by
   unfold linOf
-  rw [findNode_setLin]
+  rw [tk_findNode_setLin]
   cases hf : s.findNode m with
   | none => rfl
   | some r =>
-    have := (findNode_id hf).1
+    have := (tk_findNode_id hf).1
     simp only [Option.map_some, Option.bind_some]
     split
     · rename_i h'; exact absurd (by simpa [this] using h') h
     · rfl
 
-theorem linOf_setLin_self (s : St) (n l) (h : n ∈ s.ids) : (s.setLin n l).linOf n = l := by
+theorem tk_linOf_setLin_self (s : St) (n l) (h : n ∈ s.ids) : (s.setLin n l).linOf n = l := by
   unfold linOf
-  rw [findNode_setLin]
-  rcases mem_ids_iff.1 h with ⟨r, hr⟩
-  have := (findNode_id hr).1
+  rw [tk_findNode_setLin]
+  rcases tk_mem_ids_iff.1 h with ⟨r, hr⟩
+  have := (tk_findNode_id hr).1
   simp [hr, this]
 
-theorem tidOf_setTid_ne (s : St) (n l) {m} (h : m ≠ n) : (s.setTid n l).tidOf m = s.tidOf m := by
+theorem tk_tidOf_setTid_ne (s : St) (n l) {m} (h : m ≠ n) : (s.setTid n l).tidOf m = s.tidOf m := by
   unfold tidOf
-  rw [findNode_setTid]
+  rw [tk_findNode_setTid]
   cases hf : s.findNode m with
   | none => rfl
   | some r =>
-    have := (findNode_id hf).1
+    have := (tk_findNode_id hf).1
     simp only [Option.map_some]
     split
     · rename_i h'; exact absurd (by simpa [this] using h') h
     · rfl
 
-theorem tidOf_setTid_self (s : St) (n l) (h : n ∈ s.ids) : (s.setTid n l).tidOf n = some l := by
+theorem tk_tidOf_setTid_self (s : St) (n l) (h : n ∈ s.ids) : (s.setTid n l).tidOf n = some l := by
   unfold tidOf
-  rw [findNode_setTid]
-  rcases mem_ids_iff.1 h with ⟨r, hr⟩
-  have := (findNode_id hr).1
+  rw [tk_findNode_setTid]
+  rcases tk_mem_ids_iff.1 h with ⟨r, hr⟩
+  have := (tk_findNode_id hr).1
   simp [hr, this]
 
 /-- "same graph": same edges, node ids and times (everything `Forest` and the relations see) -/
-structure SameG (s s' : St) : Prop where
+structure tk_SameG (s s' : St) : Prop where
   edges : s'.edges = s.edges
   ids : s'.ids = s.ids
   time : ∀ n, s'.timeOf n = s.timeOf n
 
-theorem SameG.rfl' (s : St) : SameG s s := ⟨rfl, rfl, fun _ => rfl⟩
+theorem tk_SameG.rfl' (s : St) : tk_SameG s s := ⟨rfl, rfl, fun _ => rfl⟩
 
-theorem SameG.trans {a b c : St} (h1 : SameG a b) (h2 : SameG b c) : SameG a c :=
+theorem tk_SameG.trans {a b c : St} (h1 : tk_SameG a b) (h2 : tk_SameG b c) : tk_SameG a c :=
   ⟨h2.edges.trans h1.edges, h2.ids.trans h1.ids, fun n => (h2.time n).trans (h1.time n)⟩
 
-theorem SameG.edgeList {s s' : St} (h : SameG s s') : s'.edgeList = s.edgeList := by
+theorem tk_SameG.edgeList {s s' : St} (h : tk_SameG s s') : s'.edgeList = s.edgeList := by
   unfold St.edgeList; rw [h.edges]
 
-theorem SameG.outdeg {s s' : St} (h : SameG s s') (u) : s'.outdeg u = s.outdeg u := by
+theorem tk_SameG.outdeg {s s' : St} (h : tk_SameG s s') (u) : s'.outdeg u = s.outdeg u := by
   unfold St.outdeg succs; rw [h.edges]
 
-theorem SameG.indeg {s s' : St} (h : SameG s s') (u) : s'.indeg u = s.indeg u := by
+theorem tk_SameG.indeg {s s' : St} (h : tk_SameG s s') (u) : s'.indeg u = s.indeg u := by
   unfold St.indeg preds; rw [h.edges]
 
-theorem SameG.succs {s s' : St} (h : SameG s s') (u) : s'.succs u = s.succs u := by
+theorem tk_SameG.succs {s s' : St} (h : tk_SameG s s') (u) : s'.succs u = s.succs u := by
   unfold St.succs; rw [h.edges]
 
-theorem SameG.preds {s s' : St} (h : SameG s s') (u) : s'.preds u = s.preds u := by
+theorem tk_SameG.preds {s s' : St} (h : tk_SameG s s') (u) : s'.preds u = s.preds u := by
   unfold St.preds; rw [h.edges]
 
-theorem SameG.forest {s s' : St} (h : SameG s s') (hF : s.Forest) : s'.Forest where
+theorem tk_SameG.forest {s s' : St} (h : tk_SameG s s') (hF : s.Forest) : s'.Forest where
   nodup_nodes := by rw [h.ids]; exact hF.nodup_nodes
   nodup_edges := by rw [h.edgeList]; exact hF.nodup_edges
   src_mem := by rw [h.edgeList, h.ids]; exact hF.src_mem
@@ -801,29 +804,29 @@ theorem SameG.forest {s s' : St} (h : SameG s s') (hF : s.Forest) : s'.Forest wh
   indeg_le := by intro v; rw [h.indeg]; exact hF.indeg_le v
   outdeg_le := by intro v; rw [h.outdeg]; exact hF.outdeg_le v
 
-theorem sameG_setLin (s : St) (n l) : SameG s (s.setLin n l) :=
-  ⟨rfl, ids_setLin s n l, timeOf_setLin s n l⟩
-theorem sameG_setTid (s : St) (n l) : SameG s (s.setTid n l) :=
-  ⟨rfl, ids_setTid s n l, timeOf_setTid s n l⟩
+theorem tk_sameG_setLin (s : St) (n l) : tk_SameG s (s.setLin n l) :=
+  ⟨rfl, tk_ids_setLin s n l, tk_timeOf_setLin s n l⟩
+theorem tk_sameG_setTid (s : St) (n l) : tk_SameG s (s.setTid n l) :=
+  ⟨rfl, tk_ids_setTid s n l, tk_timeOf_setTid s n l⟩
 
-theorem visit_sameG (old new nl ul) (c : Core) (n : Node) :
-    SameG c.s (visit old new nl ul c n).s := by
-  unfold visit
+theorem tk_visit_sameG (old new nl ul) (c : tk_Core) (n : Node) :
+    tk_SameG c.s (tk_visit old new nl ul c n).s := by
+  unfold tk_visit
   cases ul <;> simp only [Bool.false_eq_true, if_false, if_true] <;> split
-  · exact sameG_setTid _ _ _
-  · exact SameG.rfl' _
-  · exact (sameG_setLin _ _ _).trans (sameG_setTid _ _ _)
-  · exact sameG_setLin _ _ _
+  · exact tk_sameG_setTid _ _ _
+  · exact tk_SameG.rfl' _
+  · exact (tk_sameG_setLin _ _ _).trans (tk_sameG_setTid _ _ _)
+  · exact tk_sameG_setLin _ _ _
 
-theorem foldl_visit_sameG (old new nl ul) (l : List Node) (c : Core) :
-    SameG c.s (l.foldl (visit old new nl ul) c).s := by
+theorem tk_foldl_visit_sameG (old new nl ul) (l : List Node) (c : tk_Core) :
+    tk_SameG c.s (l.foldl (tk_visit old new nl ul) c).s := by
   induction l generalizing c with
-  | nil => exact SameG.rfl' _
-  | cons x l ih => rw [List.foldl_cons]; exact (visit_sameG old new nl ul c x).trans (ih _)
+  | nil => exact tk_SameG.rfl' _
+  | cons x l ih => rw [List.foldl_cons]; exact (tk_visit_sameG old new nl ul c x).trans (ih _)
 
 /-- lineage written by the fold (`updLin = true`) -/
-theorem foldl_visit_lin (old new nl) (l : List Node) (c : Core) :
-    let c' := l.foldl (visit old new nl true) c
+theorem tk_foldl_visit_lin (old new nl) (l : List Node) (c : tk_Core) :
+    let c' := l.foldl (tk_visit old new nl true) c
     c'.lN = c.lN ++ l ∧
     (∀ m, m ∈ l → m ∈ c.s.ids → c'.s.linOf m = nl) ∧
     (∀ m, m ∉ l → c'.s.linOf m = c.s.linOf m) := by
@@ -831,20 +834,20 @@ theorem foldl_visit_lin (old new nl) (l : List Node) (c : Core) :
   | nil => simp
   | cons x l ih =>
     simp only [List.foldl_cons]
-    rcases ih (visit old new nl true c x) with ⟨h1, h2, h3⟩
-    have hids : (visit old new nl true c x).s.ids = c.s.ids := (visit_sameG old new nl true c x).ids
-    have hlN : (visit old new nl true c x).lN = c.lN ++ [x] := by
-      unfold visit; simp only [if_true]; split <;> rfl
-    have hx : x ∈ c.s.ids → (visit old new nl true c x).s.linOf x = nl := by
+    rcases ih (tk_visit old new nl true c x) with ⟨h1, h2, h3⟩
+    have hids : (tk_visit old new nl true c x).s.ids = c.s.ids := (tk_visit_sameG old new nl true c x).ids
+    have hlN : (tk_visit old new nl true c x).lN = c.lN ++ [x] := by
+      unfold tk_visit; simp only [if_true]; split <;> rfl
+    have hx : x ∈ c.s.ids → (tk_visit old new nl true c x).s.linOf x = nl := by
       intro hx
-      unfold visit; simp only [if_true]; split
-      · rw [linOf_setTid]; exact linOf_setLin_self _ _ _ hx
-      · exact linOf_setLin_self _ _ _ hx
-    have hne : ∀ m, m ≠ x → (visit old new nl true c x).s.linOf m = c.s.linOf m := by
+      unfold tk_visit; simp only [if_true]; split
+      · rw [tk_linOf_setTid]; exact tk_linOf_setLin_self _ _ _ hx
+      · exact tk_linOf_setLin_self _ _ _ hx
+    have hne : ∀ m, m ≠ x → (tk_visit old new nl true c x).s.linOf m = c.s.linOf m := by
       intro m hm
-      unfold visit; simp only [if_true]; split
-      · rw [linOf_setTid]; exact linOf_setLin_ne _ _ _ hm
-      · exact linOf_setLin_ne _ _ _ hm
+      unfold tk_visit; simp only [if_true]; split
+      · rw [tk_linOf_setTid]; exact tk_linOf_setLin_ne _ _ _ hm
+      · exact tk_linOf_setLin_ne _ _ _ hm
     refine ⟨by rw [h1, hlN]; simp, ?_, ?_⟩
     · intro m hm hmi
       by_cases hml : m ∈ l
@@ -858,56 +861,56 @@ theorem foldl_visit_lin (old new nl) (l : List Node) (c : Core) :
       rw [h3 m hm.2, hne m hm.1]
 
 /-- without lineage update the fold leaves all lineages alone -/
-theorem foldl_visit_nolin (old new nl) (l : List Node) (c : Core) :
-    let c' := l.foldl (visit old new nl false) c
+theorem tk_foldl_visit_nolin (old new nl) (l : List Node) (c : tk_Core) :
+    let c' := l.foldl (tk_visit old new nl false) c
     c'.lN = c.lN ∧ ∀ m, c'.s.linOf m = c.s.linOf m := by
   induction l generalizing c with
   | nil => simp
   | cons x l ih =>
     simp only [List.foldl_cons]
-    rcases ih (visit old new nl false c x) with ⟨h1, h2⟩
-    have hlN : (visit old new nl false c x).lN = c.lN := by
-      unfold visit; simp only [Bool.false_eq_true, if_false]; split <;> rfl
-    have hne : ∀ m, (visit old new nl false c x).s.linOf m = c.s.linOf m := by
+    rcases ih (tk_visit old new nl false c x) with ⟨h1, h2⟩
+    have hlN : (tk_visit old new nl false c x).lN = c.lN := by
+      unfold tk_visit; simp only [Bool.false_eq_true, if_false]; split <;> rfl
+    have hne : ∀ m, (tk_visit old new nl false c x).s.linOf m = c.s.linOf m := by
       intro m
-      unfold visit; simp only [Bool.false_eq_true, if_false]; split
-      · rw [linOf_setTid]
+      unfold tk_visit; simp only [Bool.false_eq_true, if_false]; split
+      · rw [tk_linOf_setTid]
       · rfl
     exact ⟨h1.trans hlN, fun m => (h2 m).trans (hne m)⟩
 
-theorem visit_tid_ne (old new nl ul) (c : Core) (x : Node) {m : Node} (h : m ≠ x) :
-    (visit old new nl ul c x).s.tidOf m = c.s.tidOf m := by
-  unfold visit
+theorem tk_visit_tid_ne (old new nl ul) (c : tk_Core) (x : Node) {m : Node} (h : m ≠ x) :
+    (tk_visit old new nl ul c x).s.tidOf m = c.s.tidOf m := by
+  unfold tk_visit
   cases ul <;> simp only [Bool.false_eq_true, if_false, if_true] <;> split
-  · exact tidOf_setTid_ne _ _ _ h
+  · exact tk_tidOf_setTid_ne _ _ _ h
   · rfl
-  · rw [tidOf_setTid_ne _ _ _ h, tidOf_setLin]
-  · rw [tidOf_setLin]
+  · rw [tk_tidOf_setTid_ne _ _ _ h, tk_tidOf_setLin]
+  · rw [tk_tidOf_setLin]
 
 /-- once the flag is down the fold changes no track id -/
-theorem foldl_visit_flag_false (old new nl ul) (l : List Node) (c : Core) (hf : c.flag = false) :
-    let c' := l.foldl (visit old new nl ul) c
+theorem tk_foldl_visit_flag_false (old new nl ul) (l : List Node) (c : tk_Core) (hf : c.flag = false) :
+    let c' := l.foldl (tk_visit old new nl ul) c
     c'.flag = false ∧ c'.tN = c.tN ∧ ∀ m, c'.s.tidOf m = c.s.tidOf m := by
   induction l generalizing c with
   | nil => simp [hf]
   | cons x l ih =>
     simp only [List.foldl_cons]
-    have hv : (visit old new nl ul c x).flag = false ∧ (visit old new nl ul c x).tN = c.tN ∧
-        ∀ m, (visit old new nl ul c x).s.tidOf m = c.s.tidOf m := by
-      unfold visit
+    have hv : (tk_visit old new nl ul c x).flag = false ∧ (tk_visit old new nl ul c x).tN = c.tN ∧
+        ∀ m, (tk_visit old new nl ul c x).s.tidOf m = c.s.tidOf m := by
+      unfold tk_visit
       simp only [hf, Bool.false_and, Bool.false_eq_true, if_false]
       refine ⟨by trivial, by trivial, fun m => ?_⟩
       cases ul
       · rfl
-      · simp only [if_true]; rw [tidOf_setLin]
+      · simp only [if_true]; rw [tk_tidOf_setLin]
     rcases ih _ hv.1 with ⟨h1, h2, h3⟩
     exact ⟨h1, h2.trans hv.2.1, fun m => (h3 m).trans (hv.2.2 m)⟩
 
 /-- track ids written by the fold: the maximal prefix of the list that carries `old` -/
-theorem foldl_visit_tid (old new nl ul) (T : Node → Option Nat) (l : List Node) (c : Core)
+theorem tk_foldl_visit_tid (old new nl ul) (T : Node → Option Nat) (l : List Node) (c : tk_Core)
     (hnd : l.Nodup) (hmem : ∀ m ∈ l, m ∈ c.s.ids) (hT : ∀ m ∈ l, c.s.tidOf m = T m)
     (hf : c.flag = true) :
-    let c' := l.foldl (visit old new nl ul) c
+    let c' := l.foldl (tk_visit old new nl ul) c
     let pre := l.takeWhile (fun m => T m == some old)
     c'.tN = c.tN ++ pre ∧
     (∀ m, m ∈ pre → c'.s.tidOf m = some new) ∧
@@ -921,20 +924,20 @@ theorem foldl_visit_tid (old new nl ul) (T : Node → Option Nat) (l : List Node
     have hxi := hmem x (List.mem_cons_self)
     by_cases hP : T x = some old
     · -- x is relabelled, flag stays up
-      have hv : (visit old new nl ul c x).flag = true ∧ (visit old new nl ul c x).tN = c.tN ++ [x] ∧
-          (visit old new nl ul c x).s.tidOf x = some new := by
-        unfold visit
-        cases ul <;> simp only [Bool.false_eq_true, if_false, if_true, tidOf_setLin, hxT, hP, hf,
+      have hv : (tk_visit old new nl ul c x).flag = true ∧ (tk_visit old new nl ul c x).tN = c.tN ++ [x] ∧
+          (tk_visit old new nl ul c x).s.tidOf x = some new := by
+        unfold tk_visit
+        cases ul <;> simp only [Bool.false_eq_true, if_false, if_true, tk_tidOf_setLin, hxT, hP, hf,
           Bool.true_and, beq_self_eq_true]
-        · exact ⟨by trivial, by trivial, tidOf_setTid_self _ _ _ hxi⟩
-        · refine ⟨by trivial, by trivial, tidOf_setTid_self _ _ _ ?_⟩
-          rw [ids_setLin]; exact hxi
-      have hids := (visit_sameG old new nl ul c x).ids
-      rcases ih (visit old new nl ul c x) hnd.2
+        · exact ⟨by trivial, by trivial, tk_tidOf_setTid_self _ _ _ hxi⟩
+        · refine ⟨by trivial, by trivial, tk_tidOf_setTid_self _ _ _ ?_⟩
+          rw [tk_ids_setLin]; exact hxi
+      have hids := (tk_visit_sameG old new nl ul c x).ids
+      rcases ih (tk_visit old new nl ul c x) hnd.2
         (by intro m hm; rw [hids]; exact hmem m (List.mem_cons_of_mem _ hm))
         (by intro m hm
             have : m ≠ x := by intro h; subst h; exact hnd.1 hm
-            rw [visit_tid_ne _ _ _ _ _ _ this]; exact hT m (List.mem_cons_of_mem _ hm))
+            rw [tk_visit_tid_ne _ _ _ _ _ _ this]; exact hT m (List.mem_cons_of_mem _ hm))
         hv.1 with ⟨h1, h2, h3⟩
       have hpre : (x :: l).takeWhile (fun m => T m == some old)
           = x :: l.takeWhile (fun m => T m == some old) := by
@@ -950,16 +953,16 @@ theorem foldl_visit_tid (old new nl ul) (T : Node → Option Nat) (l : List Node
           · exact absurd hm' hml
       · intro m hm
         rw [List.mem_cons, not_or] at hm
-        rw [h3 m hm.2, visit_tid_ne _ _ _ _ _ _ hm.1]
+        rw [h3 m hm.2, tk_visit_tid_ne _ _ _ _ _ _ hm.1]
     · -- flag goes down at x
-      have hv : (visit old new nl ul c x).flag = false ∧ (visit old new nl ul c x).tN = c.tN ∧
-          ∀ m, (visit old new nl ul c x).s.tidOf m = c.s.tidOf m := by
-        unfold visit
-        cases ul <;> simp only [Bool.false_eq_true, if_false, if_true, tidOf_setLin, hxT, hf,
+      have hv : (tk_visit old new nl ul c x).flag = false ∧ (tk_visit old new nl ul c x).tN = c.tN ∧
+          ∀ m, (tk_visit old new nl ul c x).s.tidOf m = c.s.tidOf m := by
+        unfold tk_visit
+        cases ul <;> simp only [Bool.false_eq_true, if_false, if_true, tk_tidOf_setLin, hxT, hf,
           Bool.true_and, beq_iff_eq, hP]
         · exact ⟨by trivial, by trivial, fun _ => by trivial⟩
         · exact ⟨by trivial, by trivial, fun m => by trivial⟩
-      rcases foldl_visit_flag_false old new nl ul l _ hv.1 with ⟨_, h2, h3⟩
+      rcases tk_foldl_visit_flag_false old new nl ul l _ hv.1 with ⟨_, h2, h3⟩
       have hpre : (x :: l).takeWhile (fun m => T m == some old) = [] := by
         simp [hP]
       simp only [hpre]
@@ -971,174 +974,174 @@ theorem foldl_visit_tid (old new nl ul) (T : Node → Option Nat) (l : List Node
 
 /-! ### the walk as a whole -/
 
-theorem linOf_congr {s s' : St} (h : s'.nodes = s.nodes) (n) : s'.linOf n = s.linOf n := by
+theorem tk_linOf_congr {s s' : St} (h : s'.nodes = s.nodes) (n) : s'.linOf n = s.linOf n := by
   unfold linOf findNode; rw [h]
-theorem tidOf_congr {s s' : St} (h : s'.nodes = s.nodes) (n) : s'.tidOf n = s.tidOf n := by
+theorem tk_tidOf_congr {s s' : St} (h : s'.nodes = s.nodes) (n) : s'.tidOf n = s.tidOf n := by
   unfold tidOf findNode; rw [h]
-theorem timeOf_congr {s s' : St} (h : s'.nodes = s.nodes) (n) : s'.timeOf n = s.timeOf n := by
+theorem tk_timeOf_congr {s s' : St} (h : s'.nodes = s.nodes) (n) : s'.timeOf n = s.timeOf n := by
   unfold timeOf findNode; rw [h]
-theorem sameG_of_nodes_edges {s s' : St} (h : s'.nodes = s.nodes) (he : s'.edges = s.edges) :
-    SameG s s' := ⟨he, by unfold ids; rw [h], timeOf_congr h⟩
+theorem tk_sameG_of_nodes_edges {s s' : St} (h : s'.nodes = s.nodes) (he : s'.edges = s.edges) :
+    tk_SameG s s' := ⟨he, by unfold ids; rw [h], tk_timeOf_congr h⟩
 
 /-- the fields the walk's fold never touches -/
-structure SameRest (s s' : St) : Prop where
+structure tk_SameRest (s s' : St) : Prop where
   linOn : s'.linOn = s.linOn
   maxLin : s'.maxLin = s.maxLin
   maxTid : s'.maxTid = s.maxTid
 
-theorem visit_rest (old new nl ul) (c : Core) (n : Node) :
-    SameRest c.s (visit old new nl ul c n).s := by
-  unfold visit
+theorem tk_visit_rest (old new nl ul) (c : tk_Core) (n : Node) :
+    tk_SameRest c.s (tk_visit old new nl ul c n).s := by
+  unfold tk_visit
   cases ul <;> simp only [Bool.false_eq_true, if_false, if_true] <;> split <;>
     exact ⟨rfl, rfl, rfl⟩
 
-theorem foldl_visit_rest (old new nl ul) (l : List Node) (c : Core) :
-    SameRest c.s (l.foldl (visit old new nl ul) c).s := by
+theorem tk_foldl_visit_rest (old new nl ul) (l : List Node) (c : tk_Core) :
+    tk_SameRest c.s (l.foldl (tk_visit old new nl ul) c).s := by
   induction l generalizing c with
   | nil => exact ⟨rfl, rfl, rfl⟩
   | cons x l ih =>
     rw [List.foldl_cons]
-    have h1 := visit_rest old new nl ul c x
-    have h2 := ih (visit old new nl ul c x)
+    have h1 := tk_visit_rest old new nl ul c x
+    have h2 := ih (tk_visit old new nl ul c x)
     exact ⟨h2.linOn.trans h1.linOn, h2.maxLin.trans h1.maxLin, h2.maxTid.trans h1.maxTid⟩
 
 /-- the result of the fold of the walk -/
-def walkCore (s : St) (start : Node) (oldT newT : Nat) (newL : Option Nat) : Core :=
-  (bfs s.succs (s.nodes.length + 1) [start]).foldl
-    (visit oldT newT newL (newL.isSome && s.linOn)) ⟨s, true, [], []⟩
+def tk_walkCore (s : St) (start : Node) (oldT newT : Nat) (newL : Option Nat) : tk_Core :=
+  (tk_bfs s.succs (s.nodes.length + 1) [start]).foldl
+    (tk_visit oldT newT newL (newL.isSome && s.linOn)) ⟨s, true, [], []⟩
 
 /-- the bookkeeping tail of `walk`, applied to the result of the fold -/
-def walkFin (s : St) (oldT newT : Nat) (oldL newL : Option Nat) (c : Core) : St :=
+def tk_walkFin (s : St) (oldT newT : Nat) (oldL newL : Option Nat) (c : tk_Core) : St :=
   let s1 := c.s.bookMoveT c.tN oldT newT
   match newL.isSome && s.linOn, newL with
   | true, some nl => s1.bookMoveL c.lN oldL nl
   | _, _ => s1
 
-theorem walk_eq (s : St) (start : Node) (oldT newT : Nat) (oldL newL : Option Nat) :
+theorem tk_walk_eq (s : St) (start : Node) (oldT newT : Nat) (oldL newL : Option Nat) :
     s.walk start oldT newT oldL newL =
-      walkFin s oldT newT oldL newL (s.walkCore start oldT newT newL) := by
-  have h := walkLevels_core oldT newT newL (newL.isSome && s.linOn) (s.nodes.length + 1)
+      tk_walkFin s oldT newT oldL newL (s.tk_walkCore start oldT newT newL) := by
+  have h := tk_walkLevels_core oldT newT newL (newL.isSome && s.linOn) (s.nodes.length + 1)
     { s := s, flag := true, tNodes := [], lNodes := [], next := [start] }
-  have h0 : s.walk start oldT newT oldL newL = walkFin s oldT newT oldL newL
+  have h0 : s.walk start oldT newT oldL newL = tk_walkFin s oldT newT oldL newL
       (walkLevels oldT newT newL (newL.isSome && s.linOn) (s.nodes.length + 1)
         { s := s, flag := true, tNodes := [], lNodes := [], next := [start] }).core := rfl
   rw [h0, h]; rfl
 
-theorem bookMoveT_nodes (s : St) (l o n) : (s.bookMoveT l o n).nodes = s.nodes := rfl
-theorem bookMoveT_edges (s : St) (l o n) : (s.bookMoveT l o n).edges = s.edges := rfl
-theorem bookMoveT_linOn (s : St) (l o n) : (s.bookMoveT l o n).linOn = s.linOn := rfl
-theorem bookMoveT_maxLin (s : St) (l o n) : (s.bookMoveT l o n).maxLin = s.maxLin := rfl
-theorem bookMoveT_maxTid (s : St) (l o n) :
+theorem tk_bookMoveT_nodes (s : St) (l o n) : (s.bookMoveT l o n).nodes = s.nodes := rfl
+theorem tk_bookMoveT_edges (s : St) (l o n) : (s.bookMoveT l o n).edges = s.edges := rfl
+theorem tk_bookMoveT_linOn (s : St) (l o n) : (s.bookMoveT l o n).linOn = s.linOn := rfl
+theorem tk_bookMoveT_maxLin (s : St) (l o n) : (s.bookMoveT l o n).maxLin = s.maxLin := rfl
+theorem tk_bookMoveT_maxTid (s : St) (l o n) :
     (s.bookMoveT l o n).maxTid = if n > s.maxTid then n else s.maxTid := rfl
-theorem bookMoveL_nodes (s : St) (l o n) : (s.bookMoveL l o n).nodes = s.nodes := by
+theorem tk_bookMoveL_nodes (s : St) (l o n) : (s.bookMoveL l o n).nodes = s.nodes := by
   cases o <;> rfl
-theorem bookMoveL_edges (s : St) (l o n) : (s.bookMoveL l o n).edges = s.edges := by
+theorem tk_bookMoveL_edges (s : St) (l o n) : (s.bookMoveL l o n).edges = s.edges := by
   cases o <;> rfl
-theorem bookMoveL_linOn (s : St) (l o n) : (s.bookMoveL l o n).linOn = s.linOn := by
+theorem tk_bookMoveL_linOn (s : St) (l o n) : (s.bookMoveL l o n).linOn = s.linOn := by
   cases o <;> rfl
-theorem bookMoveL_maxTid (s : St) (l o n) : (s.bookMoveL l o n).maxTid = s.maxTid := by
+theorem tk_bookMoveL_maxTid (s : St) (l o n) : (s.bookMoveL l o n).maxTid = s.maxTid := by
   cases o <;> rfl
-theorem bookMoveL_maxLin (s : St) (l o n) :
+theorem tk_bookMoveL_maxLin (s : St) (l o n) :
     (s.bookMoveL l o n).maxLin = if n > s.maxLin then n else s.maxLin := by
   cases o <;> rfl
 
-theorem walkFin_basic (s : St) (oldT newT : Nat) (oldL newL : Option Nat) (c : Core) :
-    (walkFin s oldT newT oldL newL c).nodes = c.s.nodes ∧
-    (walkFin s oldT newT oldL newL c).edges = c.s.edges ∧
-    (walkFin s oldT newT oldL newL c).linOn = c.s.linOn ∧
-    (walkFin s oldT newT oldL newL c).maxTid = (if newT > c.s.maxTid then newT else c.s.maxTid) := by
-  unfold walkFin
+theorem tk_walkFin_basic (s : St) (oldT newT : Nat) (oldL newL : Option Nat) (c : tk_Core) :
+    (tk_walkFin s oldT newT oldL newL c).nodes = c.s.nodes ∧
+    (tk_walkFin s oldT newT oldL newL c).edges = c.s.edges ∧
+    (tk_walkFin s oldT newT oldL newL c).linOn = c.s.linOn ∧
+    (tk_walkFin s oldT newT oldL newL c).maxTid = (if newT > c.s.maxTid then newT else c.s.maxTid) := by
+  unfold tk_walkFin
   simp only
   split
-  · simp only [bookMoveL_nodes, bookMoveL_edges, bookMoveL_linOn, bookMoveL_maxTid,
-      bookMoveT_nodes, bookMoveT_edges, bookMoveT_linOn, bookMoveT_maxTid]
+  · simp only [tk_bookMoveL_nodes, tk_bookMoveL_edges, tk_bookMoveL_linOn, tk_bookMoveL_maxTid,
+      tk_bookMoveT_nodes, tk_bookMoveT_edges, tk_bookMoveT_linOn, tk_bookMoveT_maxTid]
     exact ⟨trivial, trivial, trivial, trivial⟩
-  · simp only [bookMoveT_nodes, bookMoveT_edges, bookMoveT_linOn, bookMoveT_maxTid]
+  · simp only [tk_bookMoveT_nodes, tk_bookMoveT_edges, tk_bookMoveT_linOn, tk_bookMoveT_maxTid]
     exact ⟨trivial, trivial, trivial, trivial⟩
 
-theorem walkCore_sameG (s : St) (start : Node) (oldT newT : Nat) (newL : Option Nat) :
-    SameG s (s.walkCore start oldT newT newL).s :=
-  foldl_visit_sameG oldT newT newL _ _ ⟨s, true, [], []⟩
+theorem tk_walkCore_sameG (s : St) (start : Node) (oldT newT : Nat) (newL : Option Nat) :
+    tk_SameG s (s.tk_walkCore start oldT newT newL).s :=
+  tk_foldl_visit_sameG oldT newT newL _ _ ⟨s, true, [], []⟩
 
-theorem walkCore_rest (s : St) (start : Node) (oldT newT : Nat) (newL : Option Nat) :
-    SameRest s (s.walkCore start oldT newT newL).s :=
-  foldl_visit_rest oldT newT newL _ _ ⟨s, true, [], []⟩
+theorem tk_walkCore_rest (s : St) (start : Node) (oldT newT : Nat) (newL : Option Nat) :
+    tk_SameRest s (s.tk_walkCore start oldT newT newL).s :=
+  tk_foldl_visit_rest oldT newT newL _ _ ⟨s, true, [], []⟩
 
-theorem walk_nodes_edges (s : St) (start : Node) (oldT newT : Nat) (oldL newL : Option Nat) :
-    (s.walk start oldT newT oldL newL).nodes = (s.walkCore start oldT newT newL).s.nodes ∧
+theorem tk_walk_nodes_edges (s : St) (start : Node) (oldT newT : Nat) (oldL newL : Option Nat) :
+    (s.walk start oldT newT oldL newL).nodes = (s.tk_walkCore start oldT newT newL).s.nodes ∧
     (s.walk start oldT newT oldL newL).edges = s.edges := by
-  rw [walk_eq]
-  have h := walkFin_basic s oldT newT oldL newL (s.walkCore start oldT newT newL)
-  exact ⟨h.1, h.2.1.trans (walkCore_sameG s start oldT newT newL).edges⟩
+  rw [tk_walk_eq]
+  have h := tk_walkFin_basic s oldT newT oldL newL (s.tk_walkCore start oldT newT newL)
+  exact ⟨h.1, h.2.1.trans (tk_walkCore_sameG s start oldT newT newL).edges⟩
 
-theorem walk_sameG (s : St) (start : Node) (oldT newT : Nat) (oldL newL : Option Nat) :
-    SameG s (s.walk start oldT newT oldL newL) := by
-  have h := walk_nodes_edges s start oldT newT oldL newL
-  have h1 : SameG (s.walkCore start oldT newT newL).s (s.walk start oldT newT oldL newL) :=
-    ⟨by rw [h.2]; exact (walkCore_sameG s start oldT newT newL).edges.symm,
-     by unfold ids; rw [h.1], timeOf_congr h.1⟩
-  exact (walkCore_sameG s start oldT newT newL).trans h1
+theorem tk_walk_sameG (s : St) (start : Node) (oldT newT : Nat) (oldL newL : Option Nat) :
+    tk_SameG s (s.walk start oldT newT oldL newL) := by
+  have h := tk_walk_nodes_edges s start oldT newT oldL newL
+  have h1 : tk_SameG (s.tk_walkCore start oldT newT newL).s (s.walk start oldT newT oldL newL) :=
+    ⟨by rw [h.2]; exact (tk_walkCore_sameG s start oldT newT newL).edges.symm,
+     by unfold ids; rw [h.1], tk_timeOf_congr h.1⟩
+  exact (tk_walkCore_sameG s start oldT newT newL).trans h1
 
-theorem walk_linOn (s : St) (start : Node) (oldT newT : Nat) (oldL newL : Option Nat) :
+theorem tk_walk_linOn (s : St) (start : Node) (oldT newT : Nat) (oldL newL : Option Nat) :
     (s.walk start oldT newT oldL newL).linOn = s.linOn := by
-  rw [walk_eq]
-  exact (walkFin_basic s oldT newT oldL newL _).2.2.1.trans (walkCore_rest s start oldT newT newL).linOn
+  rw [tk_walk_eq]
+  exact (tk_walkFin_basic s oldT newT oldL newL _).2.2.1.trans (tk_walkCore_rest s start oldT newT newL).linOn
 
-theorem walk_maxTid (s : St) (start : Node) (oldT newT : Nat) (oldL newL : Option Nat) :
+theorem tk_walk_maxTid (s : St) (start : Node) (oldT newT : Nat) (oldL newL : Option Nat) :
     (s.walk start oldT newT oldL newL).maxTid = if newT > s.maxTid then newT else s.maxTid := by
-  rw [walk_eq, (walkFin_basic s oldT newT oldL newL _).2.2.2, (walkCore_rest s start oldT newT newL).maxTid]
+  rw [tk_walk_eq, (tk_walkFin_basic s oldT newT oldL newL _).2.2.2, (tk_walkCore_rest s start oldT newT newL).maxTid]
 
-theorem walkFin_maxLin_some (s : St) (hon : s.linOn = true) (oldT newT : Nat) (oldL : Option Nat)
-    (l : Nat) (c : Core) :
-    (walkFin s oldT newT oldL (some l) c).maxLin = if l > c.s.maxLin then l else c.s.maxLin := by
-  unfold walkFin
+theorem tk_walkFin_maxLin_some (s : St) (hon : s.linOn = true) (oldT newT : Nat) (oldL : Option Nat)
+    (l : Nat) (c : tk_Core) :
+    (tk_walkFin s oldT newT oldL (some l) c).maxLin = if l > c.s.maxLin then l else c.s.maxLin := by
+  unfold tk_walkFin
   simp only [Option.isSome_some, hon, Bool.and_self]
-  rw [bookMoveL_maxLin, bookMoveT_maxLin]
+  rw [tk_bookMoveL_maxLin, tk_bookMoveT_maxLin]
 
-theorem walkFin_maxLin_none (s : St) (oldT newT : Nat) (oldL : Option Nat) (c : Core) :
-    (walkFin s oldT newT oldL none c).maxLin = c.s.maxLin := by
-  unfold walkFin
+theorem tk_walkFin_maxLin_none (s : St) (oldT newT : Nat) (oldL : Option Nat) (c : tk_Core) :
+    (tk_walkFin s oldT newT oldL none c).maxLin = c.s.maxLin := by
+  unfold tk_walkFin
   simp only [Option.isSome_none, Bool.false_and]
   rfl
 
 /-- **lineage effect of the walk** (lineage feature on, a new lineage given): the lineage is
     written on exactly the descendants-or-self of `start` -/
-theorem walk_lin {s : St} (hF : s.Forest) {start : Node} (hs : start ∈ s.ids)
+theorem tk_walk_lin {s : St} (hF : s.Forest) {start : Node} (hs : start ∈ s.ids)
     (hon : s.linOn = true) (oldT newT : Nat) (oldL : Option Nat) (l : Nat) :
     (∀ n, s.Anc start n → (s.walk start oldT newT oldL (some l)).linOf n = some l) ∧
     (∀ n, ¬ s.Anc start n → (s.walk start oldT newT oldL (some l)).linOf n = s.linOf n) ∧
     (s.walk start oldT newT oldL (some l)).maxLin = (if l > s.maxLin then l else s.maxLin) := by
-  have hn := (walk_nodes_edges s start oldT newT oldL (some l)).1
-  have hb := bfs_walk hF hs
-  have hl := foldl_visit_lin oldT newT (some l) (bfs s.succs (s.nodes.length + 1) [start])
+  have hn := (tk_walk_nodes_edges s start oldT newT oldL (some l)).1
+  have hb := tk_bfs_walk hF hs
+  have hl := tk_foldl_visit_lin oldT newT (some l) (tk_bfs s.succs (s.nodes.length + 1) [start])
     ⟨s, true, [], []⟩
-  have hcore : s.walkCore start oldT newT (some l) =
-      (bfs s.succs (s.nodes.length + 1) [start]).foldl (visit oldT newT (some l) true)
+  have hcore : s.tk_walkCore start oldT newT (some l) =
+      (tk_bfs s.succs (s.nodes.length + 1) [start]).foldl (tk_visit oldT newT (some l) true)
         ⟨s, true, [], []⟩ := by
-    unfold walkCore; simp [hon]
+    unfold tk_walkCore; simp [hon]
   refine ⟨?_, ?_, ?_⟩
   · intro n hn'
-    rw [linOf_congr hn, hcore]
+    rw [tk_linOf_congr hn, hcore]
     exact hl.2.1 n ((hb.2 n).2 hn') (hn'.mem hF hs)
   · intro n hn'
-    rw [linOf_congr hn, hcore]
+    rw [tk_linOf_congr hn, hcore]
     exact hl.2.2 n (fun h => hn' ((hb.2 n).1 h))
-  · rw [walk_eq, walkFin_maxLin_some s hon, (walkCore_rest s start oldT newT (some l)).maxLin]
+  · rw [tk_walk_eq, tk_walkFin_maxLin_some s hon, (tk_walkCore_rest s start oldT newT (some l)).maxLin]
 
 /-- without a new lineage the walk leaves lineages and the lineage maximum alone -/
-theorem walk_nolin (s : St) (start : Node) (oldT newT : Nat) (oldL : Option Nat) :
+theorem tk_walk_nolin (s : St) (start : Node) (oldT newT : Nat) (oldL : Option Nat) :
     (∀ n, (s.walk start oldT newT oldL none).linOf n = s.linOf n) ∧
     (s.walk start oldT newT oldL none).maxLin = s.maxLin := by
-  have hn := (walk_nodes_edges s start oldT newT oldL none).1
-  have hl := foldl_visit_nolin oldT newT none (bfs s.succs (s.nodes.length + 1) [start])
+  have hn := (tk_walk_nodes_edges s start oldT newT oldL none).1
+  have hl := tk_foldl_visit_nolin oldT newT none (tk_bfs s.succs (s.nodes.length + 1) [start])
     ⟨s, true, [], []⟩
-  have hcore : s.walkCore start oldT newT none =
-      (bfs s.succs (s.nodes.length + 1) [start]).foldl (visit oldT newT none false)
+  have hcore : s.tk_walkCore start oldT newT none =
+      (tk_bfs s.succs (s.nodes.length + 1) [start]).foldl (tk_visit oldT newT none false)
         ⟨s, true, [], []⟩ := by
-    unfold walkCore; simp
+    unfold tk_walkCore; simp
   refine ⟨fun n => ?_, ?_⟩
-  · rw [linOf_congr hn, hcore]; exact hl.2 n
-  · rw [walk_eq, walkFin_maxLin_none, (walkCore_rest s start oldT newT none).maxLin]
+  · rw [tk_linOf_congr hn, hcore]; exact hl.2 n
+  · rw [tk_walk_eq, tk_walkFin_maxLin_none, (tk_walkCore_rest s start oldT newT none).maxLin]
 
 
 /-! ## §5 the user actions -/
@@ -1161,62 +1164,62 @@ theorem Anc.mono {s s' : St} (h : ∀ x, x ∈ s'.edgeList → x ∈ s.edgeList)
   | refl => exact Anc.refl _
   | step p c _ he ih => exact Anc.step _ p c ih (h _ he)
 
-theorem SegDown.congr {s s' : St} (h : SameG s s') {a b : Node} :
-    s'.SegDown a b ↔ s.SegDown a b := by
+theorem tk_SegDown.congr {s s' : St} (h : tk_SameG s s') {a b : Node} :
+    s'.tk_SegDown a b ↔ s.tk_SegDown a b := by
   constructor
   · intro hab
     induction hab with
-    | refl => exact SegDown.refl _
-    | step p c _ he ho ih => exact SegDown.step _ p c ih (h.edgeList ▸ he) (h.outdeg p ▸ ho)
+    | refl => exact tk_SegDown.refl _
+    | step p c _ he ho ih => exact tk_SegDown.step _ p c ih (h.edgeList ▸ he) (h.outdeg p ▸ ho)
   · intro hab
     induction hab with
-    | refl => exact SegDown.refl _
+    | refl => exact tk_SegDown.refl _
     | step p c _ he ho ih =>
-      exact SegDown.step _ p c ih (h.edgeList.symm ▸ he) ((h.outdeg p).symm ▸ ho)
+      exact tk_SegDown.step _ p c ih (h.edgeList.symm ▸ he) ((h.outdeg p).symm ▸ ho)
 
 /-- the graph with one edge removed (what `pDelEdge` produces) -/
-def delE (s : St) (e : Edge) : St := { s with edges := s.edges.filter (·.e != e) }
+def tk_delE (s : St) (e : Edge) : St := { s with edges := s.edges.filter (·.e != e) }
 
-theorem delE_nodes (s : St) (e) : (s.delE e).nodes = s.nodes := rfl
-theorem delE_ids (s : St) (e) : (s.delE e).ids = s.ids := rfl
-theorem delE_linOf (s : St) (e n) : (s.delE e).linOf n = s.linOf n := rfl
-theorem delE_tidOf (s : St) (e n) : (s.delE e).tidOf n = s.tidOf n := rfl
-theorem delE_timeOf (s : St) (e n) : (s.delE e).timeOf n = s.timeOf n := rfl
+theorem tk_delE_nodes (s : St) (e) : (s.tk_delE e).nodes = s.nodes := rfl
+theorem tk_delE_ids (s : St) (e) : (s.tk_delE e).ids = s.ids := rfl
+theorem tk_delE_linOf (s : St) (e n) : (s.tk_delE e).linOf n = s.linOf n := rfl
+theorem tk_delE_tidOf (s : St) (e n) : (s.tk_delE e).tidOf n = s.tidOf n := rfl
+theorem tk_delE_timeOf (s : St) (e n) : (s.tk_delE e).timeOf n = s.timeOf n := rfl
 
-theorem delE_edgeList (s : St) (e) : (s.delE e).edgeList = s.edgeList.filter (· != e) := by
-  unfold delE edgeList
+theorem tk_delE_edgeList (s : St) (e) : (s.tk_delE e).edgeList = s.edgeList.filter (· != e) := by
+  unfold tk_delE edgeList
   simp only [List.filter_map]
   rfl
 
-theorem mem_delE {s : St} {e x : Edge} : x ∈ (s.delE e).edgeList ↔ (x ∈ s.edgeList ∧ x ≠ e) := by
-  rw [delE_edgeList, List.mem_filter]; simp
+theorem tk_mem_delE {s : St} {e x : Edge} : x ∈ (s.tk_delE e).edgeList ↔ (x ∈ s.edgeList ∧ x ≠ e) := by
+  rw [tk_delE_edgeList, List.mem_filter]; simp
 
-theorem delE_succs_sublist (s : St) (e u) : List.Sublist ((s.delE e).succs u) (s.succs u) := by
-  unfold succs delE
+theorem tk_delE_succs_sublist (s : St) (e u) : List.Sublist ((s.tk_delE e).succs u) (s.succs u) := by
+  unfold succs tk_delE
   simp only
   apply List.Sublist.map
   apply List.Sublist.filter
   exact List.filter_sublist
 
-theorem delE_preds_sublist (s : St) (e u) : List.Sublist ((s.delE e).preds u) (s.preds u) := by
-  unfold preds delE
+theorem tk_delE_preds_sublist (s : St) (e u) : List.Sublist ((s.tk_delE e).preds u) (s.preds u) := by
+  unfold preds tk_delE
   simp only
   apply List.Sublist.map
   apply List.Sublist.filter
   exact List.filter_sublist
 
-theorem Forest.delE {s : St} (hF : s.Forest) (e : Edge) : (s.delE e).Forest where
+theorem Forest.tk_delE {s : St} (hF : s.Forest) (e : Edge) : (s.tk_delE e).Forest where
   nodup_nodes := hF.nodup_nodes
-  nodup_edges := by rw [delE_edgeList]; exact hF.nodup_edges.filter _
-  src_mem := by intro x hx; exact hF.src_mem x (mem_delE.1 hx).1
-  dst_mem := by intro x hx; exact hF.dst_mem x (mem_delE.1 hx).1
-  forward := by intro x hx; exact hF.forward x (mem_delE.1 hx).1
+  nodup_edges := by rw [tk_delE_edgeList]; exact hF.nodup_edges.filter _
+  src_mem := by intro x hx; exact hF.src_mem x (tk_mem_delE.1 hx).1
+  dst_mem := by intro x hx; exact hF.dst_mem x (tk_mem_delE.1 hx).1
+  forward := by intro x hx; exact hF.forward x (tk_mem_delE.1 hx).1
   indeg_le := by
-    intro v; exact Nat.le_trans (delE_preds_sublist s e v).length_le (hF.indeg_le v)
+    intro v; exact Nat.le_trans (tk_delE_preds_sublist s e v).length_le (hF.indeg_le v)
   outdeg_le := by
-    intro v; exact Nat.le_trans (delE_succs_sublist s e v).length_le (hF.outdeg_le v)
+    intro v; exact Nat.le_trans (tk_delE_succs_sublist s e v).length_le (hF.outdeg_le v)
 
-theorem thenPrim_ok {acc : UOut} {f : St → Except Err (St × PrimRec)} {recs}
+theorem tk_thenPrim_ok {acc : UOut} {f : St → Except Err (St × PrimRec)} {recs}
     (h : (thenPrim acc f).2 = .ok recs) :
     ∃ recs0 s' r, acc.2 = .ok recs0 ∧ f acc.1 = .ok (s', r) ∧ (thenPrim acc f).1 = s' := by
   unfold thenPrim at h ⊢
@@ -1229,7 +1232,7 @@ theorem thenPrim_ok {acc : UOut} {f : St → Except Err (St × PrimRec)} {recs}
       obtain ⟨s', r⟩ := p
       exact ⟨recs0, s', r, rfl, rfl, by simp⟩
 
-theorem pUpdTid_ok {s : St} {start nT nL s' r} (h : s.pUpdTid start nT nL = .ok (s', r)) :
+theorem tk_pUpdTid_ok {s : St} {start nT nL s' r} (h : s.pUpdTid start nT nL = .ok (s', r)) :
     ∃ rec, s.findNode start = some rec ∧ s' = s.walk start rec.tid nT rec.lin nL := by
   unfold pUpdTid at h
   cases hf : s.findNode start with
@@ -1238,14 +1241,14 @@ theorem pUpdTid_ok {s : St} {start nT nL s' r} (h : s.pUpdTid start nT nL = .ok 
     simp [hf] at h
     exact ⟨rec, rfl, h.1.symm⟩
 
-theorem hasEdge_iff {s : St} {e : Edge} : s.hasEdge e = true ↔ e ∈ s.edgeList := by
+theorem tk_hasEdge_iff {s : St} {e : Edge} : s.hasEdge e = true ↔ e ∈ s.edgeList := by
   unfold hasEdge edgeList
   rw [List.any_eq_true, List.mem_map]
   constructor
   · rintro ⟨r, hr, h⟩; exact ⟨r, hr, by simpa using h⟩
   · rintro ⟨r, hr, h⟩; exact ⟨r, hr, by simpa using h⟩
 
-theorem hasEdge_findEdge {s : St} {e : Edge} (h : s.hasEdge e = true) :
+theorem tk_hasEdge_findEdge {s : St} {e : Edge} (h : s.hasEdge e = true) :
     ∃ r, s.findEdge e = some r := by
   unfold hasEdge at h
   unfold findEdge
@@ -1254,20 +1257,20 @@ theorem hasEdge_findEdge {s : St} {e : Edge} (h : s.hasEdge e = true) :
   | some r' => exact ⟨r', rfl⟩
   | none => have := List.find?_eq_none.1 hf r hr; simp [hre] at this
 
-theorem pDelEdge_ok {s : St} {e : Edge} (h : s.hasEdge e = true) :
-    ∃ r, s.pDelEdge e = .ok (s.delE e, r) := by
-  rcases hasEdge_findEdge h with ⟨r, hr⟩
+theorem tk_pDelEdge_ok {s : St} {e : Edge} (h : s.hasEdge e = true) :
+    ∃ r, s.pDelEdge e = .ok (s.tk_delE e, r) := by
+  rcases tk_hasEdge_findEdge h with ⟨r, hr⟩
   unfold pDelEdge
-  simp [hr, delE]
+  simp [hr, tk_delE]
 
-theorem uDeleteEdge_eq {s : St} {e : Edge} (hE : s.hasEdge e = true) :
+theorem tk_uDeleteEdge_eq {s : St} {e : Edge} (hE : s.hasEdge e = true) :
     ∃ r1, s.uDeleteEdge e =
-      (let a : UOut := (s.delE e, .ok [r1])
-       if (s.delE e).outdeg e.1 == 0 then
+      (let a : UOut := (s.tk_delE e, .ok [r1])
+       if (s.tk_delE e).outdeg e.1 == 0 then
          thenPrim a (fun st => st.pUpdTid e.2 st.nextTid (some st.nextLin))
-       else if (s.delE e).outdeg e.1 == 1 then
-         match ((s.delE e).succs e.1).head? with
-         | none => ((s.delE e), .error .other)
+       else if (s.tk_delE e).outdeg e.1 == 1 then
+         match ((s.tk_delE e).succs e.1).head? with
+         | none => ((s.tk_delE e), .error .other)
          | some sib =>
            let a1 := thenPrim a (fun st => match st.tidOf e.1 with
              | some t => st.pUpdTid sib t none
@@ -1275,17 +1278,17 @@ theorem uDeleteEdge_eq {s : St} {e : Edge} (hE : s.hasEdge e = true) :
            thenPrim a1 (fun st => match st.tidOf e.2 with
              | some t => st.pUpdTid e.2 t (some st.nextLin)
              | none => .error .key)
-       else ((s.delE e), .error .invalid)) := by
-  rcases pDelEdge_ok hE with ⟨r, hr⟩
+       else ((s.tk_delE e), .error .invalid)) := by
+  rcases tk_pDelEdge_ok hE with ⟨r, hr⟩
   refine ⟨r, ?_⟩
   unfold uDeleteEdge
   simp only [hE, Bool.not_true, Bool.false_eq_true, if_false]
-  have : thenPrim (s, Except.ok []) (fun st => st.pDelEdge e) = (s.delE e, .ok [r]) := by
+  have : thenPrim (s, Except.ok []) (fun st => st.pDelEdge e) = (s.tk_delE e, .ok [r]) := by
     simp [thenPrim, hr]
   rw [this]
   rfl
 
-theorem uDeleteEdge_hasEdge {s : St} {e : Edge} {recs} (hok : (s.uDeleteEdge e).2 = .ok recs) :
+theorem tk_uDeleteEdge_hasEdge {s : St} {e : Edge} {recs} (hok : (s.uDeleteEdge e).2 = .ok recs) :
     s.hasEdge e = true := by
   cases h : s.hasEdge e with
   | true => rfl
@@ -1294,53 +1297,1274 @@ theorem uDeleteEdge_hasEdge {s : St} {e : Edge} {recs} (hok : (s.uDeleteEdge e).
 /-- the shape of an accepted `uDeleteEdge`: edge removed, then either one walk from the target
     (fresh track id, fresh lineage) or a walk from the sibling (no lineage) and a walk from the
     target (its own track id, fresh lineage) -/
-theorem uDeleteEdge_shape {s : St} {e : Edge} {recs} (hok : (s.uDeleteEdge e).2 = .ok recs) :
-    (∃ r, (s.delE e).outdeg e.1 = 0 ∧ (s.delE e).findNode e.2 = some r ∧
+theorem tk_uDeleteEdge_shape {s : St} {e : Edge} {recs} (hok : (s.uDeleteEdge e).2 = .ok recs) :
+    (∃ r, (s.tk_delE e).outdeg e.1 = 0 ∧ (s.tk_delE e).findNode e.2 = some r ∧
         (s.uDeleteEdge e).1 =
-          (s.delE e).walk e.2 r.tid (s.delE e).nextTid r.lin (some (s.delE e).nextLin)) ∨
-    (∃ sib t rs t2 r2, (s.delE e).outdeg e.1 = 1 ∧ ((s.delE e).succs e.1).head? = some sib ∧
-        (s.delE e).tidOf e.1 = some t ∧ (s.delE e).findNode sib = some rs ∧
-        ((s.delE e).walk sib rs.tid t rs.lin none).tidOf e.2 = some t2 ∧
-        ((s.delE e).walk sib rs.tid t rs.lin none).findNode e.2 = some r2 ∧
+          (s.tk_delE e).walk e.2 r.tid (s.tk_delE e).nextTid r.lin (some (s.tk_delE e).nextLin)) ∨
+    (∃ sib t rs t2 r2, (s.tk_delE e).outdeg e.1 = 1 ∧ ((s.tk_delE e).succs e.1).head? = some sib ∧
+        (s.tk_delE e).tidOf e.1 = some t ∧ (s.tk_delE e).findNode sib = some rs ∧
+        ((s.tk_delE e).walk sib rs.tid t rs.lin none).tidOf e.2 = some t2 ∧
+        ((s.tk_delE e).walk sib rs.tid t rs.lin none).findNode e.2 = some r2 ∧
         (s.uDeleteEdge e).1 =
-          ((s.delE e).walk sib rs.tid t rs.lin none).walk e.2 r2.tid t2 r2.lin
-            (some ((s.delE e).walk sib rs.tid t rs.lin none).nextLin)) := by
-  have hE := uDeleteEdge_hasEdge hok
-  rcases uDeleteEdge_eq hE with ⟨r1, heq⟩
+          ((s.tk_delE e).walk sib rs.tid t rs.lin none).walk e.2 r2.tid t2 r2.lin
+            (some ((s.tk_delE e).walk sib rs.tid t rs.lin none).nextLin)) := by
+  have hE := tk_uDeleteEdge_hasEdge hok
+  rcases tk_uDeleteEdge_eq hE with ⟨r1, heq⟩
   rw [heq] at hok ⊢
   simp only at hok ⊢
-  by_cases h0 : (s.delE e).outdeg e.1 = 0
+  by_cases h0 : (s.tk_delE e).outdeg e.1 = 0
   · simp only [h0, beq_self_eq_true, if_true] at hok ⊢
-    rcases thenPrim_ok hok with ⟨_, s', r, _, hf, hs'⟩
-    rcases pUpdTid_ok hf with ⟨rec, hrec, hw⟩
+    rcases tk_thenPrim_ok hok with ⟨_, s', r, _, hf, hs'⟩
+    rcases tk_pUpdTid_ok hf with ⟨rec, hrec, hw⟩
     exact Or.inl ⟨rec, trivial, hrec, by rw [hs', hw]⟩
-  · by_cases h1 : (s.delE e).outdeg e.1 = 1
-    · have hb0 : ((s.delE e).outdeg e.1 == 0) = false := by simp [h0]
+  · by_cases h1 : (s.tk_delE e).outdeg e.1 = 1
+    · have hb0 : ((s.tk_delE e).outdeg e.1 == 0) = false := by simp [h0]
       simp only [hb0, Bool.false_eq_true, if_false] at hok ⊢
       simp only [h1, beq_self_eq_true, if_true] at hok ⊢
-      cases hh : ((s.delE e).succs e.1).head? with
+      cases hh : ((s.tk_delE e).succs e.1).head? with
       | none => simp [hh] at hok
       | some sib =>
         simp only [hh] at hok ⊢
-        rcases thenPrim_ok hok with ⟨_, s', r, ha1, hf, hs'⟩
-        rcases thenPrim_ok ha1 with ⟨_, s2, r', _, hf1, hs2⟩
+        rcases tk_thenPrim_ok hok with ⟨_, s', r, ha1, hf, hs'⟩
+        rcases tk_thenPrim_ok ha1 with ⟨_, s2, r', _, hf1, hs2⟩
         simp only at hf1
         rw [hs2] at hf
-        cases ht : (s.delE e).tidOf e.1 with
+        cases ht : (s.tk_delE e).tidOf e.1 with
         | none => simp [ht] at hf1
         | some t =>
           simp only [ht] at hf1
-          rcases pUpdTid_ok hf1 with ⟨rs, hrs, hw2⟩
+          rcases tk_pUpdTid_ok hf1 with ⟨rs, hrs, hw2⟩
           cases ht2 : s2.tidOf e.2 with
           | none => simp [ht2] at hf
           | some t2 =>
             simp only [ht2] at hf
-            rcases pUpdTid_ok hf with ⟨r2, hr2, hw⟩
+            rcases tk_pUpdTid_ok hf with ⟨r2, hr2, hw⟩
             subst hw2
             exact Or.inr ⟨sib, t, rs, t2, r2, trivial, rfl, rfl, hrs, ht2, hr2, by rw [hs', hw]⟩
-    · have hb0 : ((s.delE e).outdeg e.1 == 0) = false := by simp [h0]
-      have hb1 : ((s.delE e).outdeg e.1 == 1) = false := by simp [h1]
+    · have hb0 : ((s.tk_delE e).outdeg e.1 == 0) = false := by simp [h0]
+      have hb1 : ((s.tk_delE e).outdeg e.1 == 1) = false := by simp [h1]
       simp [hb0, hb1] at hok
+
+
+/-! # part 2: user actions (lineage and track ids), checkers, example state -/
+
+/-! ### lineage: invariant bundle and the effect of `uDeleteEdge` -/
+
+/-- what the C05 step theorems assume and re-establish -/
+structure tk_LinInv (s : St) : Prop where
+  forest : s.Forest
+  linOK : s.LinOK
+  on : s.linOn = true
+  max : ∀ n l, s.linOf n = some l → l ≤ s.maxLin
+
+/-- abstract effect of an accepted `uDeleteEdge s e` on graph and lineages -/
+structure tk_DelEff (s : St) (e : Edge) (s' : St) : Prop where
+  mem : e ∈ s.edgeList
+  sameG : tk_SameG (s.tk_delE e) s'
+  on : s'.linOn = s.linOn
+  lin_in : ∀ n, s.Anc e.2 n → s'.linOf n = some (s.maxLin + 1)
+  lin_out : ∀ n, ¬ s.Anc e.2 n → s'.linOf n = s.linOf n
+  maxLin : s'.maxLin = s.maxLin + 1
+
+theorem tk_anc_delE {s : St} (hF : s.Forest) {e : Edge} (he : e ∈ s.edgeList) {n : Node} :
+    (s.tk_delE e).Anc e.2 n ↔ s.Anc e.2 n := by
+  constructor
+  · exact Anc.mono (fun x hx => (tk_mem_delE.1 hx).1)
+  · intro h
+    induction h with
+    | refl => exact Anc.refl _
+    | step p c hp hpc ih =>
+      refine Anc.step _ p c ih (tk_mem_delE.2 ⟨hpc, ?_⟩)
+      intro heq
+      subst heq
+      have h1 := hp.tm_le hF
+      have h2 := hF.tm_lt hpc
+      simp only at h1 h2
+      omega
+
+theorem tk_delE_maxLin (s : St) (e) : (s.tk_delE e).maxLin = s.maxLin := rfl
+theorem tk_delE_linOn (s : St) (e) : (s.tk_delE e).linOn = s.linOn := rfl
+theorem tk_delE_maxTid (s : St) (e) : (s.tk_delE e).maxTid = s.maxTid := rfl
+
+theorem tk_findNode_mem {s : St} {n : Node} {r} (h : s.findNode n = some r) : n ∈ s.ids :=
+  tk_mem_ids_iff.2 ⟨r, h⟩
+
+theorem tk_uDeleteEdge_eff {s : St} (hI : s.tk_LinInv) {e : Edge} {recs}
+    (hok : (s.uDeleteEdge e).2 = .ok recs) : tk_DelEff s e (s.uDeleteEdge e).1 := by
+  have hmem : e ∈ s.edgeList := tk_hasEdge_iff.1 (tk_uDeleteEdge_hasEdge hok)
+  have hF1 : (s.tk_delE e).Forest := hI.forest.tk_delE e
+  have hon1 : (s.tk_delE e).linOn = true := hI.on
+  rcases tk_uDeleteEdge_shape hok with ⟨r, _, hr, hs'⟩ | ⟨sib, t, rs, t2, r2, _, _, _, hrs, _, hr2, hs'⟩
+  · rw [hs']
+    have hw := tk_walk_lin hF1 (tk_findNode_mem hr) hon1 r.tid (s.tk_delE e).nextTid r.lin (s.tk_delE e).nextLin
+    refine ⟨hmem, tk_walk_sameG _ _ _ _ _ _, by rw [tk_walk_linOn]; rfl, ?_, ?_, ?_⟩
+    · intro n hn; exact hw.1 n ((tk_anc_delE hI.forest hmem).2 hn)
+    · intro n hn; exact hw.2.1 n (fun h => hn ((tk_anc_delE hI.forest hmem).1 h))
+    · rw [hw.2.2]; unfold nextLin; rw [tk_delE_maxLin]; simp
+  · rw [hs']
+    have hG2 := tk_walk_sameG (s.tk_delE e) sib rs.tid t rs.lin none
+    have hn2 := tk_walk_nolin (s.tk_delE e) sib rs.tid t rs.lin
+    have hF2 := hG2.forest hF1
+    have hon2 : ((s.tk_delE e).walk sib rs.tid t rs.lin none).linOn = true := by
+      rw [tk_walk_linOn]; exact hon1
+    have hw := tk_walk_lin hF2 (tk_findNode_mem hr2) hon2 r2.tid t2 r2.lin
+      ((s.tk_delE e).walk sib rs.tid t rs.lin none).nextLin
+    have hanc : ∀ n, ((s.tk_delE e).walk sib rs.tid t rs.lin none).Anc e.2 n ↔ s.Anc e.2 n := by
+      intro n; rw [Anc.congr hG2.edgeList]; exact tk_anc_delE hI.forest hmem
+    refine ⟨hmem, hG2.trans (tk_walk_sameG _ _ _ _ _ _), by rw [tk_walk_linOn, tk_walk_linOn]; rfl, ?_, ?_, ?_⟩
+    · intro n hn
+      rw [hw.1 n ((hanc n).2 hn)]; unfold nextLin; rw [hn2.2, tk_delE_maxLin]
+    · intro n hn
+      rw [hw.2.1 n (fun h => hn ((hanc n).1 h)), hn2.1 n, tk_delE_linOf]
+    · rw [hw.2.2]; unfold nextLin; rw [hn2.2, tk_delE_maxLin]; simp
+
+theorem tk_DelEff.edge_iff {s s' : St} {e : Edge} (h : tk_DelEff s e s') (x : Edge) :
+    x ∈ s'.edgeList ↔ (x ∈ s.edgeList ∧ x ≠ e) := by
+  rw [h.sameG.edgeList]; exact tk_mem_delE
+
+theorem tk_DelEff.ids {s s' : St} {e : Edge} (h : tk_DelEff s e s') : s'.ids = s.ids := h.sameG.ids
+
+theorem tk_DelEff.linInv {s s' : St} (hI : s.tk_LinInv) {e : Edge} (h : tk_DelEff s e s') : s'.tk_LinInv := by
+  obtain ⟨u, v⟩ := e
+  have hF := hI.forest
+  have hroot_v : ∀ p, (p, v) ∉ s'.edgeList := by
+    intro p hp
+    rcases (h.edge_iff _).1 hp with ⟨hp1, hp2⟩
+    have := hF.par_unique hp1 h.mem
+    subst this; exact hp2 rfl
+  have hfresh : ∀ n, s.linOf n ≠ some (s.maxLin + 1) := by
+    intro n hn; have := hI.max n _ hn; omega
+  -- a root of the new graph is `v` or an old root outside the subtree of `v`
+  have hR : ∀ a, s'.IsRoot a →
+      (a = v ∧ s'.linOf a = some (s.maxLin + 1)) ∨
+      (a ≠ v ∧ s.IsRoot a ∧ s'.linOf a = s.linOf a) := by
+    intro a ha
+    by_cases hav : a = v
+    · subst hav; exact Or.inl ⟨rfl, h.lin_in a (Anc.refl a)⟩
+    · have hra : s.IsRoot a := by
+        refine ⟨h.ids ▸ ha.1, fun p hp => ha.2 p ((h.edge_iff _).2 ⟨hp, ?_⟩)⟩
+        intro heq; cases heq; exact hav rfl
+      refine Or.inr ⟨hav, hra, h.lin_out a ?_⟩
+      intro hanc
+      rcases hanc.tail with h1 | ⟨p, _, hp⟩
+      · exact hav h1.symm
+      · exact hra.2 p hp
+  refine ⟨h.sameG.forest (hF.tk_delE _), ⟨?_, ?_, ?_⟩, h.on.trans hI.on, ?_⟩
+  · intro n hn
+    by_cases hanc : s.Anc v n
+    · rw [h.lin_in n hanc]; rfl
+    · rw [h.lin_out n hanc]; exact hI.linOK.has n (h.ids ▸ hn)
+  · rintro ⟨p, c⟩ hx
+    rcases (h.edge_iff _).1 hx with ⟨hx1, hx2⟩
+    simp only
+    by_cases hp : s.Anc v p
+    · rw [h.lin_in c (Anc.step _ p c hp hx1), h.lin_in p hp]
+    · have hc : ¬ s.Anc v c := by
+        intro hanc
+        rcases hanc.tail with h1 | ⟨p', hp', hp'c⟩
+        · subst h1
+          have := hF.par_unique hx1 h.mem
+          subst this; exact hx2 rfl
+        · have := hF.par_unique hx1 hp'c
+          subst this; exact hp hp'
+      rw [h.lin_out c hc, h.lin_out p hp]
+      exact hI.linOK.along _ hx1
+  · intro a b ha hb hab
+    rcases hR a ha with ⟨ha1, ha2⟩ | ⟨ha1, ha2, ha3⟩ <;>
+      rcases hR b hb with ⟨hb1, hb2⟩ | ⟨hb1, hb2, hb3⟩
+    · exact absurd (ha1.trans hb1.symm) hab
+    · rw [ha2, hb3]; exact fun h => hfresh b h.symm
+    · rw [ha3, hb2]; exact hfresh a
+    · rw [ha3, hb3]; exact hI.linOK.roots a b ha2 hb2 hab
+  · intro n l hl
+    rw [h.maxLin]
+    by_cases hanc : s.Anc v n
+    · rw [h.lin_in n hanc] at hl; cases hl; exact Nat.le_refl _
+    · rw [h.lin_out n hanc] at hl; have := hI.max n l hl; omega
+
+/-! ### `uAddEdge` -/
+
+/-- the part of `uAddEdge` after the optional forced removal -/
+def tk_addTail (a0 : UOut) (e : Edge) : UOut :=
+  match a0.2 with
+  | .error err => (a0.1, .error err)
+  | .ok recs0 =>
+    let s0 := a0.1
+    let out := s0.outdeg e.1
+    let a1 : UOut :=
+      if out == 0 then
+        thenPrim a0 (fun st => match st.tidOf e.1 with
+          | some t => st.pUpdTid e.2 t (st.linOf e.1)
+          | none => .error .key)
+      else if out == 1 then
+        match (s0.succs e.1).head? with
+        | none => (s0, .error .other)
+        | some succ =>
+          let b := thenPrim a0 (fun st => st.pUpdTid succ st.nextTid none)
+          thenPrim b (fun st => match st.tidOf e.2 with
+            | some t => st.pUpdTid e.2 t (st.linOf e.1)
+            | none => .error .key)
+      else (s0.rollback recs0, .error .invalid)
+    thenPrim a1 (fun st => st.pAddEdge e [])
+
+def tk_addHead (s : St) (e : Edge) (force : Bool) : UOut :=
+  if s.indeg e.2 > 0 then
+    if !force then (s, .error .forceable)
+    else match (s.preds e.2).head? with
+      | some p => thenUser (s, .ok []) (fun st => st.uDeleteEdge (p, e.2))
+      | none => (s, .error .other)
+  else (s, .ok [])
+
+theorem tk_uAddEdge_eq (s : St) (e : Edge) (force : Bool) :
+    s.uAddEdge e force =
+      if !(s.hasNode e.1) then (s, .error .invalid) else
+      if !(s.hasNode e.2) then (s, .error .invalid) else
+      if (s.timeOf e.1).getD 0 ≥ (s.timeOf e.2).getD 0 then (s, .error .invalid) else
+      tk_addTail (tk_addHead s e force) e := by
+  unfold uAddEdge tk_addTail tk_addHead
+  rfl
+
+theorem tk_preds_nil_iff {s : St} {v : Node} : s.indeg v = 0 ↔ ∀ p, (p, v) ∉ s.edgeList := by
+  unfold indeg
+  constructor
+  · intro h p hp
+    have := List.length_pos_of_mem (tk_mem_preds.2 hp)
+    omega
+  · intro h
+    cases hp : s.preds v with
+    | nil => rfl
+    | cons p l =>
+      exact absurd (tk_mem_preds.1 (hp ▸ List.mem_cons_self)) (h p)
+
+theorem tk_addHead_shape {s : St} {e : Edge} {force : Bool} {recs0}
+    (hok : (tk_addHead s e force).2 = .ok recs0) :
+    ((tk_addHead s e force).1 = s ∧ ∀ p, (p, e.2) ∉ s.edgeList) ∨
+    (∃ p recs', (p, e.2) ∈ s.edgeList ∧ (s.uDeleteEdge (p, e.2)).2 = .ok recs' ∧
+      (tk_addHead s e force).1 = (s.uDeleteEdge (p, e.2)).1) := by
+  unfold tk_addHead at hok ⊢
+  by_cases hin : s.indeg e.2 > 0
+  · simp only [hin, if_true] at hok ⊢
+    cases force with
+    | false => simp at hok
+    | true =>
+      simp only [Bool.not_true, Bool.false_eq_true, if_false] at hok ⊢
+      cases hh : (s.preds e.2).head? with
+      | none => simp [hh] at hok
+      | some p =>
+        simp only [hh] at hok ⊢
+        have hp : (p, e.2) ∈ s.edgeList := tk_mem_preds.1 (List.mem_of_head? hh)
+        unfold thenUser at hok ⊢
+        simp only at hok ⊢
+        cases hd : (s.uDeleteEdge (p, e.2)).2 with
+        | error err => simp [hd] at hok
+        | ok recs' =>
+          refine Or.inr ⟨p, recs', hp, hd, ?_⟩
+          simp only
+  · simp only [hin, if_false]
+    exact Or.inl ⟨trivial, tk_preds_nil_iff.1 (by omega)⟩
+
+theorem tk_addTail_shape {a0 : UOut} {e : Edge} {recs} (hok : (tk_addTail a0 e).2 = .ok recs) :
+    (∃ t r rr, a0.1.outdeg e.1 = 0 ∧ a0.1.tidOf e.1 = some t ∧ a0.1.findNode e.2 = some r ∧
+        (a0.1.walk e.2 r.tid t r.lin (a0.1.linOf e.1)).pAddEdge e [] = .ok ((tk_addTail a0 e).1, rr)) ∨
+    (∃ succ rs t r rr, a0.1.outdeg e.1 = 1 ∧ (a0.1.succs e.1).head? = some succ ∧
+        a0.1.findNode succ = some rs ∧
+        (a0.1.walk succ rs.tid a0.1.nextTid rs.lin none).tidOf e.2 = some t ∧
+        (a0.1.walk succ rs.tid a0.1.nextTid rs.lin none).findNode e.2 = some r ∧
+        ((a0.1.walk succ rs.tid a0.1.nextTid rs.lin none).walk e.2 r.tid t r.lin
+          ((a0.1.walk succ rs.tid a0.1.nextTid rs.lin none).linOf e.1)).pAddEdge e []
+            = .ok ((tk_addTail a0 e).1, rr)) := by
+  unfold tk_addTail at hok ⊢
+  cases h2 : a0.2 with
+  | error err => simp [h2] at hok
+  | ok recs0 =>
+    simp only [h2] at hok ⊢
+    by_cases h0 : a0.1.outdeg e.1 = 0
+    · simp only [h0, beq_self_eq_true, if_true] at hok ⊢
+      rcases tk_thenPrim_ok hok with ⟨_, s', rr, ha1, hf, hs'⟩
+      rcases tk_thenPrim_ok ha1 with ⟨_, s1, r', _, hf1, hs1⟩
+      rw [hs1] at hf
+      cases ht : a0.1.tidOf e.1 with
+      | none => simp [ht] at hf1
+      | some t =>
+        simp only [ht] at hf1
+        rcases tk_pUpdTid_ok hf1 with ⟨r, hr, hw⟩
+        subst hw
+        exact Or.inl ⟨t, r, rr, trivial, rfl, hr, by rw [hs']; exact hf⟩
+    · have hb0 : (a0.1.outdeg e.1 == 0) = false := by simp [h0]
+      simp only [hb0, Bool.false_eq_true, if_false] at hok ⊢
+      by_cases h1 : a0.1.outdeg e.1 = 1
+      · simp only [h1, beq_self_eq_true, if_true] at hok ⊢
+        cases hh : (a0.1.succs e.1).head? with
+        | none =>
+          simp only [hh] at hok
+          rcases tk_thenPrim_ok hok with ⟨_, _, _, ha1, _, _⟩
+          simp at ha1
+        | some succ =>
+          simp only [hh] at hok ⊢
+          rcases tk_thenPrim_ok hok with ⟨_, s', rr, ha1, hf, hs'⟩
+          rcases tk_thenPrim_ok ha1 with ⟨_, s1, r', hb, hf1, hs1⟩
+          rcases tk_thenPrim_ok hb with ⟨_, sb, r'', _, hfb, hsb⟩
+          rw [hs1] at hf
+          rw [hsb] at hf1
+          rcases tk_pUpdTid_ok hfb with ⟨rs, hrs, hwb⟩
+          subst hwb
+          cases ht : (a0.1.walk succ rs.tid a0.1.nextTid rs.lin none).tidOf e.2 with
+          | none => simp [ht] at hf1
+          | some t =>
+            simp only [ht] at hf1
+            rcases tk_pUpdTid_ok hf1 with ⟨r, hr, hw⟩
+            subst hw
+            exact Or.inr ⟨succ, rs, t, r, rr, trivial, rfl, hrs, ht, hr, by rw [hs']; exact hf⟩
+      · have hb1 : (a0.1.outdeg e.1 == 1) = false := by simp [h1]
+        simp only [hb1, Bool.false_eq_true, if_false] at hok
+        rcases tk_thenPrim_ok hok with ⟨_, _, _, ha1, _, _⟩
+        simp at ha1
+
+
+theorem tk_succs_eq (s : St) (u : Node) :
+    s.succs u = (s.edgeList.filter (·.1 == u)).map (·.2) := by
+  unfold succs edgeList
+  rw [List.filter_map, List.map_map]; rfl
+
+theorem tk_preds_eq (s : St) (v : Node) :
+    s.preds v = (s.edgeList.filter (·.2 == v)).map (·.1) := by
+  unfold preds edgeList
+  rw [List.filter_map, List.map_map]; rfl
+
+theorem tk_setEdgeAttr_edgeList (s : St) (e k v) : (s.setEdgeAttr e k v).edgeList = s.edgeList := by
+  unfold setEdgeAttr edgeList
+  simp only [List.map_map]
+  apply List.map_congr_left
+  intro r _
+  simp only [Function.comp]
+  split <;> rfl
+
+theorem tk_iouUpdateEdge_spec (s : St) (e : Edge) :
+    (s.iouUpdateEdge e).nodes = s.nodes ∧ (s.iouUpdateEdge e).edgeList = s.edgeList ∧
+    (s.iouUpdateEdge e).linOn = s.linOn ∧ (s.iouUpdateEdge e).maxLin = s.maxLin ∧
+    (s.iouUpdateEdge e).maxTid = s.maxTid := by
+  unfold iouUpdateEdge
+  split
+  · split
+    · exact ⟨rfl, tk_setEdgeAttr_edgeList _ _ _ _, rfl, rfl, rfl⟩
+    · exact ⟨rfl, rfl, rfl, rfl, rfl⟩
+  · exact ⟨rfl, rfl, rfl, rfl, rfl⟩
+
+theorem tk_pAddEdge_spec {s : St} {e : Edge} {attrs s' r} (h : s.pAddEdge e attrs = .ok (s', r))
+    (hne : e ∉ s.edgeList) :
+    s'.nodes = s.nodes ∧ s'.edgeList = s.edgeList ++ [e] ∧ s'.linOn = s.linOn ∧
+    s'.maxLin = s.maxLin ∧ s'.maxTid = s.maxTid := by
+  unfold pAddEdge at h
+  split at h
+  · cases h
+  · have hE : s.hasEdge e = false := by
+      cases hh : s.hasEdge e with
+      | false => rfl
+      | true => exact absurd (tk_hasEdge_iff.1 hh) hne
+    simp only [hE, Bool.false_eq_true, if_false] at h
+    injection h with h
+    injection h with h1 _
+    subst h1
+    have := tk_iouUpdateEdge_spec ({ s with edges := s.edges ++ [{ e := e, attrs := attrs }] } : St) e
+    refine ⟨this.1, this.2.1.trans ?_, this.2.2.1, this.2.2.2.1, this.2.2.2.2⟩
+    unfold edgeList; simp
+
+/-- abstract effect of the relabel-and-link part of an accepted `uAddEdge` (from the state `s0`
+    after the optional forced removal) -/
+structure tk_AddEff (s0 : St) (e : Edge) (s' : St) : Prop where
+  ids : s'.ids = s0.ids
+  time : ∀ n, s'.timeOf n = s0.timeOf n
+  edges : s'.edgeList = s0.edgeList ++ [e]
+  on : s'.linOn = s0.linOn
+  lin_in : ∀ n, s0.Anc e.2 n → s'.linOf n = s0.linOf e.1
+  lin_out : ∀ n, ¬ s0.Anc e.2 n → s'.linOf n = s0.linOf n
+  maxLin : s'.maxLin = s0.maxLin
+  outdeg : s0.outdeg e.1 ≤ 1
+
+theorem tk_addTail_eff {a0 : UOut} (hI : a0.1.tk_LinInv) {e : Edge} {recs}
+    (hu : e.1 ∈ a0.1.ids) (hroot : ∀ p, (p, e.2) ∉ a0.1.edgeList)
+    (hok : (tk_addTail a0 e).2 = .ok recs) : tk_AddEff a0.1 e (tk_addTail a0 e).1 := by
+  have hF := hI.forest
+  have hne : e ∉ a0.1.edgeList := fun h => hroot e.1 h
+  rcases hI.linOK.has e.1 hu |> Option.isSome_iff_exists.1 with ⟨lu, hlu⟩
+  have hlumax : ¬ lu > a0.1.maxLin := by have := hI.max _ _ hlu; omega
+  rcases tk_addTail_shape hok with ⟨t, r, rr, ho, _, hr, hadd⟩ |
+      ⟨succ, rs, t, r, rr, ho, _, hrs, _, hr, hadd⟩
+  · rw [hlu] at hadd
+    have hG := tk_walk_sameG a0.1 e.2 r.tid t r.lin (some lu)
+    have hw := tk_walk_lin hF (tk_findNode_mem hr) hI.on r.tid t r.lin lu
+    have hp := tk_pAddEdge_spec hadd (by rw [hG.edgeList]; exact hne)
+    have hG' : tk_SameG (a0.1.walk e.2 r.tid t r.lin (some lu)) (tk_addTail a0 e).1 →
+      True := fun _ => trivial
+    refine ⟨by unfold ids; rw [hp.1]; exact hG.ids, ?_, by rw [hp.2.1, hG.edgeList],
+      by rw [hp.2.2.1, tk_walk_linOn], ?_, ?_, ?_, by omega⟩
+    · intro n; rw [tk_timeOf_congr hp.1]; exact hG.time n
+    · intro n hn; rw [tk_linOf_congr hp.1, hlu]; exact hw.1 n hn
+    · intro n hn; rw [tk_linOf_congr hp.1]; exact hw.2.1 n hn
+    · rw [hp.2.2.2.1, hw.2.2, if_neg hlumax]
+  · have hGb := tk_walk_sameG a0.1 succ rs.tid a0.1.nextTid rs.lin none
+    have hnb := tk_walk_nolin a0.1 succ rs.tid a0.1.nextTid rs.lin
+    have hFb := hGb.forest hF
+    have honb : (a0.1.walk succ rs.tid a0.1.nextTid rs.lin none).linOn = true := by
+      rw [tk_walk_linOn]; exact hI.on
+    rw [hnb.1, hlu] at hadd
+    have hG := tk_walk_sameG (a0.1.walk succ rs.tid a0.1.nextTid rs.lin none) e.2 r.tid t r.lin (some lu)
+    have hw := tk_walk_lin hFb (tk_findNode_mem hr) honb r.tid t r.lin lu
+    have hp := tk_pAddEdge_spec hadd (by rw [hG.edgeList, hGb.edgeList]; exact hne)
+    have hanc : ∀ n, (a0.1.walk succ rs.tid a0.1.nextTid rs.lin none).Anc e.2 n ↔ a0.1.Anc e.2 n :=
+      fun n => Anc.congr hGb.edgeList
+    refine ⟨by unfold ids; rw [hp.1]; exact (hGb.trans hG).ids, ?_,
+      by rw [hp.2.1, hG.edgeList, hGb.edgeList],
+      by rw [hp.2.2.1, tk_walk_linOn, tk_walk_linOn], ?_, ?_, ?_, by omega⟩
+    · intro n; rw [tk_timeOf_congr hp.1]; exact (hGb.trans hG).time n
+    · intro n hn; rw [tk_linOf_congr hp.1, hlu]; exact hw.1 n ((hanc n).2 hn)
+    · intro n hn; rw [tk_linOf_congr hp.1, hw.2.1 n (fun h => hn ((hanc n).1 h))]; exact hnb.1 n
+    · rw [hp.2.2.2.1, hw.2.2, hnb.2, if_neg hlumax]
+
+
+theorem tk_indeg_eq (s : St) (v : Node) : s.indeg v = (s.edgeList.filter (·.2 == v)).length := by
+  unfold indeg; rw [tk_preds_eq, List.length_map]
+
+theorem tk_outdeg_eq (s : St) (u : Node) : s.outdeg u = (s.edgeList.filter (·.1 == u)).length := by
+  unfold outdeg; rw [tk_succs_eq, List.length_map]
+
+theorem tk_AddEff.forest {s0 s' : St} {e : Edge} (hF : s0.Forest) (h : tk_AddEff s0 e s')
+    (hu : e.1 ∈ s0.ids) (hv : e.2 ∈ s0.ids) (ht : s0.tk_tm e.1 < s0.tk_tm e.2)
+    (hroot : ∀ p, (p, e.2) ∉ s0.edgeList) : s'.Forest where
+  nodup_nodes := by rw [h.ids]; exact hF.nodup_nodes
+  nodup_edges := by
+    rw [h.edges, List.nodup_append]
+    refine ⟨hF.nodup_edges, by simp, ?_⟩
+    intro a ha b hb hab
+    rw [List.mem_singleton] at hb
+    subst hb; subst hab
+    exact hroot _ ha
+  src_mem := by
+    intro x hx
+    rw [h.edges, List.mem_append, List.mem_singleton] at hx
+    rw [h.ids]
+    rcases hx with hx | rfl
+    · exact hF.src_mem x hx
+    · exact hu
+  dst_mem := by
+    intro x hx
+    rw [h.edges, List.mem_append, List.mem_singleton] at hx
+    rw [h.ids]
+    rcases hx with hx | rfl
+    · exact hF.dst_mem x hx
+    · exact hv
+  forward := by
+    intro x hx t1 t2
+    rw [h.edges, List.mem_append, List.mem_singleton] at hx
+    rw [h.time, h.time]
+    rcases hx with hx | rfl
+    · exact hF.forward x hx t1 t2
+    · intro h1 h2
+      rw [tk_timeOf_of_mem hu] at h1
+      rw [tk_timeOf_of_mem hv] at h2
+      cases h1; cases h2; exact ht
+  indeg_le := by
+    intro v
+    rw [tk_indeg_eq, h.edges, List.filter_append, List.length_append, ← tk_indeg_eq]
+    by_cases hve : e.2 = v
+    · subst hve
+      have := tk_preds_nil_iff.2 hroot
+      rw [this]; simp
+    · have : ([e].filter (·.2 == v)) = [] := by simp [hve]
+      rw [this]; exact hF.indeg_le v
+  outdeg_le := by
+    intro u
+    rw [tk_outdeg_eq, h.edges, List.filter_append, List.length_append, ← tk_outdeg_eq]
+    by_cases hue : e.1 = u
+    · subst hue
+      have := h.outdeg
+      have h2 : ([e].filter (·.1 == e.1)).length ≤ 1 := by simp
+      omega
+    · have : ([e].filter (·.1 == u)) = [] := by simp [hue]
+      rw [this]; exact hF.outdeg_le u
+
+theorem tk_AddEff.linInv {s0 s' : St} {e : Edge} (hI : s0.tk_LinInv) (h : tk_AddEff s0 e s')
+    (hu : e.1 ∈ s0.ids) (hv : e.2 ∈ s0.ids) (ht : s0.tk_tm e.1 < s0.tk_tm e.2)
+    (hroot : ∀ p, (p, e.2) ∉ s0.edgeList) : s'.tk_LinInv := by
+  obtain ⟨u, v⟩ := e
+  simp only at hu hv ht hroot
+  have hF := hI.forest
+  have hnu : ¬ s0.Anc v u := by
+    intro hanc; have := hanc.tm_le hF; omega
+  -- a node outside the subtree of `v` whose parent … : subtree membership is inherited along old edges
+  have hsub : ∀ p c, (p, c) ∈ s0.edgeList → ¬ s0.Anc v p → ¬ s0.Anc v c := by
+    intro p c hpc hp hanc
+    rcases hanc.tail with h1 | ⟨p', hp', hp'c⟩
+    · subst h1; exact hroot p hpc
+    · have := hF.par_unique hpc hp'c
+      subst this; exact hp hp'
+  have hrootout : ∀ a, s0.IsRoot a → a ≠ v → ¬ s0.Anc v a := by
+    intro a ha hav hanc
+    rcases hanc.tail with h1 | ⟨p, _, hp⟩
+    · exact hav h1.symm
+    · exact ha.2 p hp
+  refine ⟨h.forest hF hu hv ht hroot, ⟨?_, ?_, ?_⟩, h.on.trans hI.on, ?_⟩
+  · intro n hn
+    by_cases hanc : s0.Anc v n
+    · rw [h.lin_in n hanc]; exact hI.linOK.has u hu
+    · rw [h.lin_out n hanc]; exact hI.linOK.has n (h.ids ▸ hn)
+  · rintro ⟨p, c⟩ hx
+    rw [h.edges, List.mem_append, List.mem_singleton] at hx
+    simp only
+    rcases hx with hx | hx
+    · by_cases hp : s0.Anc v p
+      · rw [h.lin_in c (Anc.step _ p c hp hx), h.lin_in p hp]
+      · rw [h.lin_out c (hsub p c hx hp), h.lin_out p hp]
+        exact hI.linOK.along _ hx
+    · cases hx
+      rw [h.lin_in v (Anc.refl v), h.lin_out u hnu]
+  · intro a b ha hb hab
+    have key : ∀ a, s'.IsRoot a → s0.IsRoot a ∧ s'.linOf a = s0.linOf a := by
+      intro a ha
+      have hav : a ≠ v := by
+        intro heq; subst heq
+        exact ha.2 u (by rw [h.edges]; simp)
+      have hra : s0.IsRoot a :=
+        ⟨h.ids ▸ ha.1, fun p hp => ha.2 p (by rw [h.edges]; exact List.mem_append_left _ hp)⟩
+      exact ⟨hra, h.lin_out a (hrootout a hra hav)⟩
+    rw [(key a ha).2, (key b hb).2]
+    exact hI.linOK.roots a b (key a ha).1 (key b hb).1 hab
+  · intro n l hl
+    rw [h.maxLin]
+    by_cases hanc : s0.Anc v n
+    · rw [h.lin_in n hanc] at hl; exact hI.max u l hl
+    · rw [h.lin_out n hanc] at hl; exact hI.max n l hl
+
+
+theorem tk_addTail_ok_head {a0 : UOut} {e : Edge} {recs} (hok : (tk_addTail a0 e).2 = .ok recs) :
+    ∃ recs0, a0.2 = .ok recs0 := by
+  unfold tk_addTail at hok
+  cases h2 : a0.2 with
+  | error err => simp [h2] at hok
+  | ok recs0 => exact ⟨recs0, rfl⟩
+
+theorem tk_tm_congr {s s' : St} (h : ∀ n, s'.timeOf n = s.timeOf n) (n) : s'.tk_tm n = s.tk_tm n := by
+  unfold tk_tm; rw [h]
+
+/-- accepted `uDeleteEdge`: invariant bundle preserved + frame -/
+theorem tk_uDeleteEdge_linInv {s : St} (hI : s.tk_LinInv) {e : Edge} {recs}
+    (hok : (s.uDeleteEdge e).2 = .ok recs) :
+    (s.uDeleteEdge e).1.tk_LinInv ∧ ∀ n, ¬ s.Anc e.2 n → (s.uDeleteEdge e).1.linOf n = s.linOf n :=
+  ⟨(tk_uDeleteEdge_eff hI hok).linInv hI, (tk_uDeleteEdge_eff hI hok).lin_out⟩
+
+/-- accepted `uAddEdge`: invariant bundle preserved + frame -/
+theorem tk_uAddEdge_linInv {s : St} (hI : s.tk_LinInv) {e : Edge} {force : Bool} {recs}
+    (hok : (s.uAddEdge e force).2 = .ok recs) :
+    (s.uAddEdge e force).1.tk_LinInv ∧
+    ∀ n, ¬ s.Anc e.2 n → (s.uAddEdge e force).1.linOf n = s.linOf n := by
+  rw [tk_uAddEdge_eq] at hok ⊢
+  by_cases h1 : s.hasNode e.1 = true
+  · by_cases h2 : s.hasNode e.2 = true
+    · by_cases h3 : (s.timeOf e.1).getD 0 ≥ (s.timeOf e.2).getD 0
+      · simp [h1, h2, h3] at hok
+      · simp only [h1, h2, h3, Bool.not_true, Bool.false_eq_true, if_false] at hok ⊢
+        have hu := tk_hasNode_iff.1 h1
+        have hv := tk_hasNode_iff.1 h2
+        have ht : s.tk_tm e.1 < s.tk_tm e.2 := by unfold tk_tm; omega
+        rcases tk_addTail_ok_head hok with ⟨recs0, h0⟩
+        rcases tk_addHead_shape h0 with ⟨hs0, hroot⟩ | ⟨p, recs', hp, hdel, hs0⟩
+        · have hI0 : (tk_addHead s e force).1.tk_LinInv := by rw [hs0]; exact hI
+          have heff := tk_addTail_eff hI0 (by rw [hs0]; exact hu) (by rw [hs0]; exact hroot) hok
+          rw [hs0] at heff hI0
+          refine ⟨heff.linInv hI0 hu hv ht hroot, heff.lin_out⟩
+        · have hd := tk_uDeleteEdge_eff hI hdel
+          have hI0 : (tk_addHead s e force).1.tk_LinInv := by rw [hs0]; exact hd.linInv hI
+          have hroot : ∀ q, (q, e.2) ∉ (s.uDeleteEdge (p, e.2)).1.edgeList := by
+            intro q hq
+            rcases (hd.edge_iff _).1 hq with ⟨hq1, hq2⟩
+            have := hI.forest.par_unique hq1 hp
+            subst this; exact hq2 rfl
+          have htime : ∀ n, (s.uDeleteEdge (p, e.2)).1.timeOf n = s.timeOf n := hd.sameG.time
+          have heff := tk_addTail_eff hI0 (by rw [hs0, hd.ids]; exact hu) (by rw [hs0]; exact hroot) hok
+          rw [hs0] at heff hI0
+          refine ⟨heff.linInv hI0 (by rw [hd.ids]; exact hu) (by rw [hd.ids]; exact hv)
+            (by rw [tk_tm_congr htime, tk_tm_congr htime]; exact ht) hroot, ?_⟩
+          intro n hn
+          have hn' : ¬ (s.uDeleteEdge (p, e.2)).1.Anc e.2 n :=
+            fun h => hn (Anc.mono (fun x hx => ((hd.edge_iff x).1 hx).1) h)
+          rw [heff.lin_out n hn']
+          exact hd.lin_out n hn
+    · simp [h1, h2] at hok
+  · simp [h1] at hok
+
+
+/-! ### `uSwap`: chaining the bundle through nested user actions -/
+
+theorem tk_thenUser_ok {acc : UOut} {f : St → UOut} {recs} (h : (thenUser acc f).2 = .ok recs) :
+    ∃ r0 r1, acc.2 = .ok r0 ∧ (f acc.1).2 = .ok r1 ∧ (thenUser acc f).1 = (f acc.1).1 := by
+  unfold thenUser at h ⊢
+  cases h2 : acc.2 with
+  | error e => simp [h2] at h
+  | ok r0 =>
+    simp only [h2] at h ⊢
+    cases hf : (f acc.1).2 with
+    | error e => simp [hf] at h
+    | ok r1 => exact ⟨r0, r1, rfl, rfl, rfl⟩
+
+/-- an optional nested user action -/
+def tk_optStep (o : Option Node) (g : Node → St → UOut) (acc : UOut) : UOut :=
+  match o with
+  | some p => thenUser acc (g p)
+  | none => acc
+
+theorem tk_optStep_inv (P : St → Prop) {o : Option Node} {g : Node → St → UOut} {acc : UOut} {recs}
+    (hg : ∀ p st r, P st → (g p st).2 = .ok r → P (g p st).1)
+    (h : (tk_optStep o g acc).2 = .ok recs) :
+    (∃ r0, acc.2 = .ok r0) ∧ (P acc.1 → P (tk_optStep o g acc).1) := by
+  cases o with
+  | none => exact ⟨⟨recs, h⟩, id⟩
+  | some p =>
+    rcases tk_thenUser_ok h with ⟨r0, r1, h0, h1, h2⟩
+    refine ⟨⟨r0, h0⟩, fun hP => ?_⟩
+    show P (thenUser acc (g p)).1
+    rw [h2]; exact hg p acc.1 r1 hP h1
+
+def tk_swapBad (s : St) (o : Option Node) (t : Nat) : Bool :=
+  match o with | some p => decide ((s.timeOf p).getD 0 ≥ t) | none => false
+
+theorem tk_uSwap_eq (s : St) (n1 n2 : Node) :
+    s.uSwap n1 n2 =
+      if !(s.hasNode n1) || !(s.hasNode n2) then (s, .error .key) else
+      if (s.preds n1).head?.isNone && (s.preds n2).head?.isNone then (s, .error .invalid) else
+      if (s.preds n1).head? == (s.preds n2).head? then (s, .error .invalid) else
+      if tk_swapBad s (s.preds n1).head? ((s.timeOf n2).getD 0) then (s, .error .invalid) else
+      if tk_swapBad s (s.preds n2).head? ((s.timeOf n1).getD 0) then (s, .error .invalid) else
+      tk_optStep (s.preds n2).head? (fun p st => st.uAddEdge (p, n1) false)
+        (tk_optStep (s.preds n1).head? (fun p st => st.uAddEdge (p, n2) false)
+          (tk_optStep (s.preds n2).head? (fun p st => st.uDeleteEdge (p, n2))
+            (tk_optStep (s.preds n1).head? (fun p st => st.uDeleteEdge (p, n1)) (s, .ok [])))) := by
+  unfold uSwap tk_optStep tk_swapBad
+  rfl
+
+/-- accepted `uSwap` re-establishes the lineage invariant bundle -/
+theorem tk_uSwap_linInv {s : St} (hI : s.tk_LinInv) {n1 n2 : Node} {recs}
+    (hok : (s.uSwap n1 n2).2 = .ok recs) : (s.uSwap n1 n2).1.tk_LinInv := by
+  rw [tk_uSwap_eq] at hok ⊢
+  generalize (!(s.hasNode n1) || !(s.hasNode n2)) = c1 at hok ⊢
+  generalize ((s.preds n1).head?.isNone && (s.preds n2).head?.isNone) = c2 at hok ⊢
+  generalize ((s.preds n1).head? == (s.preds n2).head?) = c3 at hok ⊢
+  generalize tk_swapBad s (s.preds n1).head? ((s.timeOf n2).getD 0) = c4 at hok ⊢
+  generalize tk_swapBad s (s.preds n2).head? ((s.timeOf n1).getD 0) = c5 at hok ⊢
+  cases c1 <;> cases c2 <;> cases c3 <;> cases c4 <;> cases c5 <;>
+    simp only [if_true, if_false, Bool.false_eq_true, reduceCtorEq] at hok ⊢
+  have hA : ∀ (n : Node) p st r, St.tk_LinInv st → (st.uAddEdge (p, n) false).2 = .ok r →
+      St.tk_LinInv (st.uAddEdge (p, n) false).1 :=
+    fun n p st r hP hr => (tk_uAddEdge_linInv hP hr).1
+  have hD : ∀ (n : Node) p st r, St.tk_LinInv st → (st.uDeleteEdge (p, n)).2 = .ok r →
+      St.tk_LinInv (st.uDeleteEdge (p, n)).1 :=
+    fun n p st r hP hr => (tk_uDeleteEdge_linInv hP hr).1
+  rcases tk_optStep_inv St.tk_LinInv (hA n1) hok with ⟨⟨r3, h3ok⟩, i4⟩
+  rcases tk_optStep_inv St.tk_LinInv (hA n2) h3ok with ⟨⟨r2, h2ok⟩, i3⟩
+  rcases tk_optStep_inv St.tk_LinInv (hD n2) h2ok with ⟨⟨r1, h1ok⟩, i2⟩
+  rcases tk_optStep_inv St.tk_LinInv (hD n1) h1ok with ⟨_, i1⟩
+  exact i4 (i3 (i2 (i1 hI)))
+
+/-! ### Boolean checkers for concrete states (non-vacuity examples) -/
+
+def tk_forestB (s : St) : Bool :=
+  decide s.ids.Nodup && decide s.edgeList.Nodup &&
+  s.edgeList.all (fun e => s.ids.contains e.1 && s.ids.contains e.2 && decide (s.tk_tm e.1 < s.tk_tm e.2)
+    && decide (s.indeg e.2 ≤ 1) && decide (s.outdeg e.1 ≤ 2))
+
+theorem tk_forestB_sound {s : St} (h : s.tk_forestB = true) : s.Forest := by
+  unfold tk_forestB at h
+  simp only [Bool.and_eq_true, decide_eq_true_eq, List.all_eq_true, List.contains_iff_mem] at h
+  obtain ⟨⟨h1, h2⟩, h3⟩ := h
+  refine ⟨h1, h2, fun e he => (h3 e he).1.1.1.1, fun e he => (h3 e he).1.1.1.2, ?_, ?_, ?_⟩
+  · intro e he t1 t2 ht1 ht2
+    have := (h3 e he).1.1.2
+    unfold tk_tm at this
+    rw [ht1, ht2] at this
+    exact this
+  · intro v
+    by_cases h0 : s.indeg v = 0
+    · omega
+    · cases hp : s.preds v with
+      | nil => unfold indeg at h0; rw [hp] at h0; exact absurd rfl h0
+      | cons p l =>
+        have := tk_mem_preds.1 (hp ▸ List.mem_cons_self : p ∈ s.preds v)
+        exact (h3 _ this).1.2
+  · intro u
+    by_cases h0 : s.outdeg u = 0
+    · omega
+    · cases hp : s.succs u with
+      | nil => unfold outdeg at h0; rw [hp] at h0; exact absurd rfl h0
+      | cons c l =>
+        have := tk_mem_succs.1 (hp ▸ List.mem_cons_self : c ∈ s.succs u)
+        exact (h3 _ this).2
+
+theorem tk_isRoot_iff {s : St} {a : Node} : s.IsRoot a ↔ (a ∈ s.ids ∧ s.preds a = []) := by
+  unfold IsRoot
+  constructor
+  · rintro ⟨h1, h2⟩
+    refine ⟨h1, ?_⟩
+    cases hp : s.preds a with
+    | nil => rfl
+    | cons p l => exact absurd (tk_mem_preds.1 (hp ▸ List.mem_cons_self : p ∈ s.preds a)) (h2 p)
+  · rintro ⟨h1, h2⟩
+    refine ⟨h1, fun p hp => ?_⟩
+    have := tk_mem_preds.2 hp
+    rw [h2] at this; cases this
+
+theorem tk_isHead_iff {s : St} {a : Node} :
+    s.IsHead a ↔ (a ∈ s.ids ∧ ∀ p ∈ s.preds a, s.outdeg p = 2) := by
+  unfold IsHead
+  constructor
+  · rintro ⟨h1, h2⟩; exact ⟨h1, fun p hp => h2 p (tk_mem_preds.1 hp)⟩
+  · rintro ⟨h1, h2⟩; exact ⟨h1, fun p hp => h2 p (tk_mem_preds.2 hp)⟩
+
+def tk_linOKB (s : St) : Bool :=
+  s.ids.all (fun n => (s.linOf n).isSome) &&
+  s.edgeList.all (fun e => s.linOf e.2 == s.linOf e.1) &&
+  s.ids.all (fun a => s.ids.all (fun b =>
+    !(s.preds a).isEmpty || !(s.preds b).isEmpty || a == b || s.linOf a != s.linOf b))
+
+theorem tk_linOKB_sound {s : St} (h : s.tk_linOKB = true) : s.LinOK := by
+  unfold tk_linOKB at h
+  simp only [Bool.and_eq_true, List.all_eq_true] at h
+  obtain ⟨⟨h1, h2⟩, h3⟩ := h
+  refine ⟨h1, fun e he => by simpa using h2 e he, ?_⟩
+  intro a b ha hb hab
+  rcases tk_isRoot_iff.1 ha with ⟨ha1, ha2⟩
+  rcases tk_isRoot_iff.1 hb with ⟨hb1, hb2⟩
+  have := h3 a ha1 b hb1
+  simp [ha2, hb2, hab] at this
+  exact this
+
+def tk_tidOKB (s : St) : Bool :=
+  s.edgeList.all (fun e => s.outdeg e.1 != 1 || s.tidOf e.2 == s.tidOf e.1) &&
+  s.ids.all (fun a => s.ids.all (fun b =>
+    !((s.preds a).all (fun p => s.outdeg p == 2)) || !((s.preds b).all (fun p => s.outdeg p == 2))
+      || a == b || s.tidOf a != s.tidOf b))
+
+theorem tk_tidOKB_sound {s : St} (h : s.tk_tidOKB = true) : s.TidOK := by
+  unfold tk_tidOKB at h
+  simp only [Bool.and_eq_true, List.all_eq_true] at h
+  obtain ⟨h2, h3⟩ := h
+  refine ⟨?_, ?_⟩
+  · intro e he ho
+    have := h2 e he
+    simp [ho] at this
+    exact this
+  · intro a b ha hb hab
+    rcases tk_isHead_iff.1 ha with ⟨ha1, ha2⟩
+    rcases tk_isHead_iff.1 hb with ⟨hb1, hb2⟩
+    have := h3 a ha1 b hb1
+    have e1 : (s.preds a).all (fun p => s.outdeg p == 2) = true := by
+      rw [List.all_eq_true]; intro p hp; simp [ha2 p hp]
+    have e2 : (s.preds b).all (fun p => s.outdeg p == 2) = true := by
+      rw [List.all_eq_true]; intro p hp; simp [hb2 p hp]
+    simp [e1, e2, hab] at this
+    exact this
+
+def tk_linMaxB (s : St) : Bool :=
+  s.ids.all (fun n => match s.linOf n with | some l => decide (l ≤ s.maxLin) | none => true)
+
+theorem tk_linMaxB_sound {s : St} (h : s.tk_linMaxB = true) :
+    ∀ n l, s.linOf n = some l → l ≤ s.maxLin := by
+  unfold tk_linMaxB at h
+  rw [List.all_eq_true] at h
+  intro n l hl
+  have hn : n ∈ s.ids := by
+    unfold linOf at hl
+    cases hf : s.findNode n with
+    | none => rw [hf] at hl; cases hl
+    | some r => exact tk_findNode_mem hf
+  have := h n hn
+  rw [hl] at this
+  simpa using this
+
+def tk_tidMaxB (s : St) : Bool :=
+  s.ids.all (fun n => match s.tidOf n with | some l => decide (l ≤ s.maxTid) | none => true)
+
+theorem tk_tidMaxB_sound {s : St} (h : s.tk_tidMaxB = true) :
+    ∀ n t, s.tidOf n = some t → t ≤ s.maxTid := by
+  unfold tk_tidMaxB at h
+  rw [List.all_eq_true] at h
+  intro n l hl
+  have hn : n ∈ s.ids := by
+    unfold tidOf at hl
+    cases hf : s.findNode n with
+    | none => rw [hf] at hl; cases hl
+    | some r => exact tk_findNode_mem hf
+  have := h n hn
+  rw [hl] at this
+  simpa using this
+
+theorem tk_linInv_of_check {s : St} (h1 : s.tk_forestB = true) (h2 : s.tk_linOKB = true)
+    (h3 : s.linOn = true) (h4 : s.tk_linMaxB = true) : s.tk_LinInv :=
+  ⟨tk_forestB_sound h1, tk_linOKB_sound h2, h3, tk_linMaxB_sound h4⟩
+
+
+theorem tk_uAddEdge_ok_nodes {s : St} {e : Edge} {force : Bool} {recs}
+    (hok : (s.uAddEdge e force).2 = .ok recs) :
+    e.1 ∈ s.ids ∧ e.2 ∈ s.ids ∧ s.tk_tm e.1 < s.tk_tm e.2 := by
+  rw [tk_uAddEdge_eq] at hok
+  by_cases h1 : s.hasNode e.1 = true
+  · by_cases h2 : s.hasNode e.2 = true
+    · by_cases h3 : (s.timeOf e.1).getD 0 ≥ (s.timeOf e.2).getD 0
+      · simp [h1, h2, h3] at hok
+      · exact ⟨tk_hasNode_iff.1 h1, tk_hasNode_iff.1 h2, by unfold tk_tm; omega⟩
+    · simp [h1, h2] at hok
+  · simp [h1] at hok
+
+/-- the list of nodes the walk writes the lineage on is the BFS list -/
+theorem tk_walkLevels_lNodes (s : St) (start : Node) (oldT newT : Nat) (nl : Option Nat) :
+    (walkLevels oldT newT nl true (s.nodes.length + 1)
+      { s := s, flag := true, tNodes := [], lNodes := [], next := [start] }).lNodes
+      = tk_bfs s.succs (s.nodes.length + 1) [start] := by
+  have h := tk_walkLevels_core oldT newT nl true (s.nodes.length + 1)
+    { s := s, flag := true, tNodes := [], lNodes := [], next := [start] }
+  have h2 := (tk_foldl_visit_lin oldT newT nl (tk_bfs s.succs (s.nodes.length + 1) [start])
+    ⟨s, true, [], []⟩).1
+  have h3 := congrArg tk_Core.lN h
+  simp only [WalkAcc.core] at h3
+  rw [h3]; simpa using h2
+
+/-! ### track ids: the walk relabels the chain below `start` -/
+
+theorem tk_bfs_nil (succ : Node → List Node) : ∀ f, tk_bfs succ f [] = []
+  | 0 => rfl
+  | _ + 1 => rfl
+
+theorem tk_bfs_single (succ : Node → List Node) (f : Nat) (x : Node) :
+    tk_bfs succ (f + 1) [x] = x :: tk_bfs succ f (succ x) := by
+  simp [tk_bfs]
+
+/-- chain hypotheses for the track-id part of the walk, relative to the start `x`:
+    along a non-division edge below `x` the child carries `old`, below a division it does not -/
+def tk_ChainHyp (s : St) (old : Nat) (x : Node) : Prop :=
+  (∀ p c, s.tk_SegDown x p → (p, c) ∈ s.edgeList → s.outdeg p = 1 → s.tidOf c = some old) ∧
+  (∀ p c, s.tk_SegDown x p → (p, c) ∈ s.edgeList → s.outdeg p = 2 → s.tidOf c ≠ some old)
+
+theorem tk_ChainHyp.child {s : St} {old : Nat} {x y : Node} (h : tk_ChainHyp s old x)
+    (he : (x, y) ∈ s.edgeList) (ho : s.outdeg x = 1) : tk_ChainHyp s old y :=
+  ⟨fun p c hp => h.1 p c (tk_SegDown.cons he ho hp), fun p c hp => h.2 p c (tk_SegDown.cons he ho hp)⟩
+
+theorem tk_tw_sound {s : St} (hF : s.Forest) (old : Nat) :
+    ∀ (f : Nat) (x n : Node), tk_ChainHyp s old x →
+      n ∈ (tk_bfs s.succs f [x]).takeWhile (fun m => s.tidOf m == some old) → s.tk_SegDown x n
+  | 0, x, n, _, hn => by simp [tk_bfs] at hn
+  | f + 1, x, n, hH, hn => by
+    rw [tk_bfs_single, List.takeWhile_cons] at hn
+    split at hn
+    · rcases List.mem_cons.1 hn with rfl | hn'
+      · exact tk_SegDown.refl _
+      · match hsx : s.succs x with
+        | [] => rw [hsx, tk_bfs_nil] at hn'; cases hn'
+        | [y] =>
+          rw [hsx] at hn'
+          have hxy : (x, y) ∈ s.edgeList := tk_mem_succs.1 (by rw [hsx]; exact List.mem_cons_self)
+          have ho : s.outdeg x = 1 := by unfold outdeg; rw [hsx]; rfl
+          exact tk_SegDown.cons hxy ho (tk_tw_sound hF old f y n (hH.child hxy ho) hn')
+        | y :: z :: l =>
+          have hxy : (x, y) ∈ s.edgeList := tk_mem_succs.1 (by rw [hsx]; exact List.mem_cons_self)
+          have ho : s.outdeg x = 2 := by
+            have h1 := hF.outdeg_le x
+            unfold outdeg at h1 ⊢; rw [hsx] at h1 ⊢; simp at h1 ⊢; omega
+          have hny := hH.2 x y (tk_SegDown.refl x) hxy ho
+          rw [hsx] at hn'
+          cases f with
+          | zero => simp [tk_bfs] at hn'
+          | succ f' =>
+            rw [tk_bfs] at hn'
+            · rw [List.cons_append, List.takeWhile_cons] at hn'
+              simp [hny] at hn'
+            · intro h; cases h
+    · cases hn
+
+theorem tk_eq_singleton_of_length_one {α} {l : List α} (h : l.length = 1) {c : α} (hc : c ∈ l) :
+    l = [c] := by
+  match l, h with
+  | [x], _ => simp at hc; rw [hc]
+
+theorem tk_tw_complete {s : St} (old : Nat) :
+    ∀ (f : Nat) (x n : Node), s.tidOf x = some old → tk_ChainHyp s old x → s.tk_SegDown x n →
+      n ∈ tk_bfs s.succs f [x] →
+      n ∈ (tk_bfs s.succs f [x]).takeWhile (fun m => s.tidOf m == some old)
+  | 0, x, n, _, _, _, hn => by simp [tk_bfs] at hn
+  | f + 1, x, n, hP, hH, hseg, hn => by
+    rw [tk_bfs_single] at hn ⊢
+    rw [List.takeWhile_cons]
+    simp only [hP, beq_self_eq_true, if_true]
+    by_cases hnx : n = x
+    · subst hnx; exact List.mem_cons_self
+    · rcases hseg.head with h | ⟨ho, c, hxc, hcn⟩
+      · exact absurd h.symm hnx
+      · have hsx : s.succs x = [c] := tk_eq_singleton_of_length_one ho (tk_mem_succs.2 hxc)
+        rw [hsx] at hn ⊢
+        rcases List.mem_cons.1 hn with h | hn'
+        · exact absurd h hnx
+        · exact List.mem_cons_of_mem _
+            (tk_tw_complete old f c n (hH.1 x c (tk_SegDown.refl x) hxc ho) (hH.child hxc ho) hcn hn')
+
+/-- **track-id effect of the walk**: under the chain hypotheses the walk writes `newT` on exactly
+    the chain `tk_SegDown s start ·` and changes no other track id -/
+theorem tk_walk_tid {s : St} (hF : s.Forest) {start : Node} (hs : start ∈ s.ids)
+    (oldT newT : Nat) (oldL newL : Option Nat) (hold : s.tidOf start = some oldT)
+    (hH : tk_ChainHyp s oldT start) :
+    (∀ n, s.tk_SegDown start n → (s.walk start oldT newT oldL newL).tidOf n = some newT) ∧
+    (∀ n, ¬ s.tk_SegDown start n → (s.walk start oldT newT oldL newL).tidOf n = s.tidOf n) := by
+  have hn := (tk_walk_nodes_edges s start oldT newT oldL newL).1
+  have hb := tk_bfs_walk hF hs
+  have ht := tk_foldl_visit_tid oldT newT newL (newL.isSome && s.linOn) s.tidOf
+    (tk_bfs s.succs (s.nodes.length + 1) [start]) ⟨s, true, [], []⟩ hb.1
+    (fun m hm => ((hb.2 m).1 hm).mem hF hs) (fun _ _ => rfl) rfl
+  have hiff : ∀ n, n ∈ (tk_bfs s.succs (s.nodes.length + 1) [start]).takeWhile
+      (fun m => s.tidOf m == some oldT) ↔ s.tk_SegDown start n := by
+    intro n
+    constructor
+    · exact tk_tw_sound hF oldT _ start n hH
+    · intro h
+      exact tk_tw_complete oldT _ start n hold hH h ((hb.2 n).2 h.anc)
+  refine ⟨?_, ?_⟩
+  · intro n hseg
+    rw [tk_tidOf_congr hn]
+    exact ht.2.1 n ((hiff n).2 hseg)
+  · intro n hseg
+    rw [tk_tidOf_congr hn]
+    exact ht.2.2 n (fun h => hseg ((hiff n).1 h))
+
+/-- under `TidOK` the chain hypotheses hold at every node for its own track id -/
+theorem TidOK.chainHyp {s : St} (hF : s.Forest) (hT : s.TidOK) {x : Node} {t : Nat}
+    (hx : x ∈ s.ids) (ht : s.tidOf x = some t) : tk_ChainHyp s t x := by
+  refine ⟨?_, ?_⟩
+  · intro p c hp hpc ho
+    have := hT.of_sameSeg ((hp.step _ _ _ hpc ho).sameSeg hx)
+    rw [← this]; exact ht
+  · intro p c hp hpc ho hc
+    -- c is a head; the head of x's segment is a different head with the same id
+    rcases tk_exists_head hF _ x hx rfl with ⟨h, hh, hhx⟩
+    have hch : s.IsHead c := by
+      refine ⟨hF.dst_mem _ hpc, fun q hq => ?_⟩
+      rw [hF.par_unique hq hpc]; exact ho
+    have hne : h ≠ c := by
+      intro heq; subst heq
+      -- h above x above p, and p → h: cycle
+      have h1 := (hhx.anc.trans hp.anc).tm_le hF
+      have h2 := hF.tm_lt hpc
+      omega
+    apply hT.heads h c hh hch hne
+    rw [hT.of_sameSeg (hhx.sameSeg hh.1), ht, hc]
+
+/-! ### track ids: `uDeleteEdge` -/
+
+theorem tk_tidOf_some_mem {s : St} {n : Node} {t : Nat} (h : s.tidOf n = some t) : n ∈ s.ids := by
+  unfold tidOf at h
+  cases hf : s.findNode n with
+  | none => rw [hf] at h; cases h
+  | some r => exact tk_findNode_mem hf
+
+theorem tk_tidOf_of_findNode {s : St} {n : Node} {r} (h : s.findNode n = some r) :
+    s.tidOf n = some r.tid := by
+  unfold tidOf; rw [h]; rfl
+
+theorem tk_visit_tid_same (old nl ul) (c : tk_Core) (x m : Node) :
+    (tk_visit old old nl ul c x).s.tidOf m = c.s.tidOf m := by
+  by_cases hm : m = x
+  · subst hm
+    unfold tk_visit
+    cases ul <;> simp only [Bool.false_eq_true, if_false, if_true] <;> split
+    · rename_i h
+      simp only [Bool.and_eq_true, beq_iff_eq] at h
+      rw [tk_tidOf_setTid_self _ _ _ (tk_tidOf_some_mem h.2)]; exact h.2.symm
+    · rfl
+    · rename_i h
+      simp only [Bool.and_eq_true, beq_iff_eq] at h
+      rw [tk_tidOf_setTid_self _ _ _ (tk_tidOf_some_mem h.2), ← h.2, tk_tidOf_setLin]
+    · rw [tk_tidOf_setLin]
+  · exact tk_visit_tid_ne old old nl ul c x hm
+
+theorem tk_foldl_visit_tid_same (old nl ul) (l : List Node) (c : tk_Core) (m : Node) :
+    (l.foldl (tk_visit old old nl ul) c).s.tidOf m = c.s.tidOf m := by
+  induction l generalizing c with
+  | nil => rfl
+  | cons x l ih => rw [List.foldl_cons, ih, tk_visit_tid_same]
+
+/-- a walk that "relabels" to the same track id changes no track id -/
+theorem tk_walk_tid_same (s : St) (start : Node) (t : Nat) (oldL newL : Option Nat) (m : Node) :
+    (s.walk start t t oldL newL).tidOf m = s.tidOf m := by
+  rw [tk_tidOf_congr (tk_walk_nodes_edges s start t t oldL newL).1]
+  exact tk_foldl_visit_tid_same t newL _ _ ⟨s, true, [], []⟩ m
+
+theorem tk_outdeg_delE_ne (s : St) {u v p : Node} (h : p ≠ u) :
+    (s.tk_delE (u, v)).outdeg p = s.outdeg p := by
+  rw [tk_outdeg_eq, tk_outdeg_eq, tk_delE_edgeList, List.filter_filter]
+  congr 1
+  apply List.filter_congr
+  intro x _
+  by_cases hx : x.1 = p
+  · have : x ≠ (u, v) := by intro heq; subst heq; exact h hx.symm
+    simp [hx, this]
+  · simp [hx]
+
+theorem tk_outdeg_delE_le (s : St) (e : Edge) (p : Node) : (s.tk_delE e).outdeg p ≤ s.outdeg p :=
+  (tk_delE_succs_sublist s e p).length_le
+
+/-- chains that do not contain the source of the removed edge are chains of the old graph -/
+theorem tk_SegDown.of_delE {s : St} {u v x n : Node} (hx : ¬ s.Anc x u)
+    (h : (s.tk_delE (u, v)).tk_SegDown x n) : s.tk_SegDown x n := by
+  induction h with
+  | refl => exact tk_SegDown.refl _
+  | step p c _ he ho ih =>
+    have hpu : p ≠ u := by intro heq; subst heq; exact hx ih.anc
+    exact tk_SegDown.step _ p c ih (tk_mem_delE.1 he).1 (by rw [← tk_outdeg_delE_ne s hpu]; exact ho)
+
+theorem tk_chainHyp_delE {s : St} (hF : s.Forest) (hT : s.TidOK) {u v x : Node} {t : Nat}
+    (hx : x ∈ s.ids) (hxu : ¬ s.Anc x u) (ht : s.tidOf x = some t) :
+    tk_ChainHyp (s.tk_delE (u, v)) t x := by
+  have hc := hT.chainHyp hF hx ht
+  refine ⟨?_, ?_⟩
+  · intro p c hp hpc ho
+    have hp' := hp.of_delE hxu
+    have hpu : p ≠ u := by intro heq; subst heq; exact hxu hp'.anc
+    exact hc.1 p c hp' (tk_mem_delE.1 hpc).1 (by rw [← tk_outdeg_delE_ne s hpu]; exact ho)
+  · intro p c hp hpc ho
+    have hp' := hp.of_delE hxu
+    have hpu : p ≠ u := by intro heq; subst heq; exact hxu hp'.anc
+    exact hc.2 p c hp' (tk_mem_delE.1 hpc).1 (by rw [← tk_outdeg_delE_ne s hpu]; exact ho)
+
+/-- a node strictly inside a chain is not a head -/
+theorem tk_SegDown.not_head {s : St} {x a : Node} (h : s.tk_SegDown x a) (hne : a ≠ x) : ¬ s.IsHead a := by
+  intro hh
+  rcases h.tail with h1 | ⟨p, _, hp, ho⟩
+  · exact hne h1.symm
+  · exact hh.no_in hp ho
+
+/-- chains are closed under "child of a node outside is outside", except at the start -/
+theorem tk_SegDown.closed {s : St} (hF : s.Forest) {x p c : Node} (hpc : (p, c) ∈ s.edgeList)
+    (hp : ¬ s.tk_SegDown x p) (hcx : c ≠ x) : ¬ s.tk_SegDown x c := by
+  intro h
+  rcases h.tail with h1 | ⟨p', hp', hp'c, _⟩
+  · exact hcx h1.symm
+  · rw [hF.par_unique hpc hp'c] at hp; exact hp hp'
+
+/-- what the C04 step theorems assume and re-establish -/
+structure tk_TidInv (s : St) : Prop where
+  forest : s.Forest
+  tidOK : s.TidOK
+  max : ∀ n t, s.tidOf n = some t → t ≤ s.maxTid
+
+theorem tk_isHead_of_delE {s : St} (hF : s.Forest) {u v a : Node} (h : (s.tk_delE (u, v)).IsHead a)
+    (hav : a ≠ v) : s.IsHead a := by
+  refine ⟨h.1, fun p hp => ?_⟩
+  have h1 := h.2 p (tk_mem_delE.2 ⟨hp, by intro heq; cases heq; exact hav rfl⟩)
+  have h2 := tk_outdeg_delE_le s (u, v) p
+  have h3 := hF.outdeg_le p
+  omega
+
+/-- removal of a non-division edge `(u,v)`: the chain below `v` gets a fresh id -/
+theorem tk_cutTid0 {s s' : St} (hI : s.tk_TidInv) {u v : Node} (he : (u, v) ∈ s.edgeList)
+    (ho : (s.tk_delE (u, v)).outdeg u = 0) (hG : tk_SameG (s.tk_delE (u, v)) s')
+    (hin : ∀ n, (s.tk_delE (u, v)).tk_SegDown v n → s'.tidOf n = some (s.maxTid + 1))
+    (hout : ∀ n, ¬ (s.tk_delE (u, v)).tk_SegDown v n → s'.tidOf n = s.tidOf n) : s'.TidOK := by
+  have hF := hI.forest
+  have hF1 := hF.tk_delE (u, v)
+  have hroot : ∀ p, (p, v) ∉ (s.tk_delE (u, v)).edgeList := by
+    intro p hp
+    rcases tk_mem_delE.1 hp with ⟨hp1, hp2⟩
+    have := hF.par_unique hp1 he
+    subst this; exact hp2 rfl
+  have hfresh : ∀ n, s.tidOf n ≠ some (s.maxTid + 1) := by
+    intro n hn; have := hI.max n _ hn; omega
+  refine ⟨?_, ?_⟩
+  · rintro ⟨p, c⟩ hx hop
+    rw [hG.edgeList] at hx
+    rw [hG.outdeg] at hop
+    simp only at hop ⊢
+    by_cases hp : (s.tk_delE (u, v)).tk_SegDown v p
+    · rw [hin c (hp.step _ _ _ hx hop), hin p hp]
+    · have hcv : c ≠ v := by intro heq; subst heq; exact hroot p hx
+      rw [hout c (tk_SegDown.closed hF1 hx hp hcv), hout p hp]
+      have hpu : p ≠ u := by intro heq; subst heq; omega
+      exact hI.tidOK.along (p, c) (tk_mem_delE.1 hx).1 (by rw [← tk_outdeg_delE_ne s hpu]; exact hop)
+  · intro a b ha hb hab
+    have key : ∀ a, s'.IsHead a → (a = v ∧ s'.tidOf a = some (s.maxTid + 1)) ∨
+        (a ≠ v ∧ s.IsHead a ∧ s'.tidOf a = s.tidOf a) := by
+      intro a ha
+      have ha1 : (s.tk_delE (u, v)).IsHead a :=
+        ⟨hG.ids ▸ ha.1, fun p hp => by rw [← hG.outdeg]; exact ha.2 p (hG.edgeList ▸ hp)⟩
+      by_cases hav : a = v
+      · subst hav; exact Or.inl ⟨rfl, hin a (tk_SegDown.refl a)⟩
+      · refine Or.inr ⟨hav, tk_isHead_of_delE hF ha1 hav, hout a ?_⟩
+        intro hseg; exact hseg.not_head hav ha1
+    rcases key a ha with ⟨ha1, ha2⟩ | ⟨ha1, ha2, ha3⟩ <;>
+      rcases key b hb with ⟨hb1, hb2⟩ | ⟨hb1, hb2, hb3⟩
+    · exact absurd (ha1.trans hb1.symm) hab
+    · rw [ha2, hb3]; exact fun h => hfresh b h.symm
+    · rw [ha3, hb2]; exact hfresh a
+    · rw [ha3, hb3]; exact hI.tidOK.heads a b ha2 hb2 hab
+
+/-- removal of a division edge `(u,v)`: the chain below the sibling joins the track of `u` -/
+theorem tk_cutTid1 {s s' : St} (hI : s.tk_TidInv) {u v sib : Node} {tu : Nat} (he : (u, v) ∈ s.edgeList)
+    (ho : (s.tk_delE (u, v)).outdeg u = 1) (hsib : (u, sib) ∈ (s.tk_delE (u, v)).edgeList)
+    (htu : s.tidOf u = some tu) (hG : tk_SameG (s.tk_delE (u, v)) s')
+    (hin : ∀ n, (s.tk_delE (u, v)).tk_SegDown sib n → s'.tidOf n = some tu)
+    (hout : ∀ n, ¬ (s.tk_delE (u, v)).tk_SegDown sib n → s'.tidOf n = s.tidOf n) : s'.TidOK := by
+  have hF := hI.forest
+  have hF1 := hF.tk_delE (u, v)
+  have hsibE : (u, sib) ∈ s.edgeList := (tk_mem_delE.1 hsib).1
+  have hu_out : ¬ (s.tk_delE (u, v)).tk_SegDown sib u := by
+    intro h
+    have h1 := h.anc.tm_le hF1
+    have h2 := hF1.tm_lt hsib
+    omega
+  have hvhead : s.IsHead v := by
+    refine ⟨hF.dst_mem _ he, fun p hp => ?_⟩
+    have hpu := hF.par_unique hp he
+    subst hpu
+    -- two distinct children v, sib of u
+    have hne : sib ≠ v := by intro heq; subst heq; exact (tk_mem_delE.1 hsib).2 rfl
+    have h2 : 2 ≤ s.outdeg p := by
+      have hs : List.Sublist [sib] ((s.tk_delE (p, v)).succs p) := by
+        rw [tk_eq_singleton_of_length_one ho (tk_mem_succs.2 hsib)]
+        exact List.Sublist.refl _
+      rw [tk_outdeg_eq]
+      have hnd : [(p, v), (p, sib)].Nodup := by simp; intro h; exact hne h.symm
+      have hsub : ∀ x ∈ [(p, v), (p, sib)], x ∈ s.edgeList.filter (·.1 == p) := by
+        intro x hx
+        simp only [List.mem_cons, List.not_mem_nil, or_false] at hx
+        rcases hx with rfl | rfl <;> simp [List.mem_filter, he, hsibE]
+      clear hs
+      -- a duplicate-free two-element list inside the filter
+      have : ∀ (l : List Edge), (p, v) ∈ l → (p, sib) ∈ l → 2 ≤ l.length := by
+        intro l h1 h2
+        match l, h1, h2 with
+        | [], h1, _ => cases h1
+        | [x], h1, h2 =>
+          simp only [List.mem_singleton] at h1 h2
+          rw [← h1] at h2; cases h2; exact absurd rfl hne
+        | _ :: _ :: _, _, _ => simp
+      exact this _ (hsub _ (by simp)) (hsub _ (by simp))
+    have := hF.outdeg_le p
+    omega
+  refine ⟨?_, ?_⟩
+  · rintro ⟨p, c⟩ hx hop
+    rw [hG.edgeList] at hx
+    rw [hG.outdeg] at hop
+    simp only at hop ⊢
+    by_cases hpu : p = u
+    · subst hpu
+      have hc : c = sib := tk_child_unique hop hx hsib
+      subst hc
+      rw [hin c (tk_SegDown.refl c), hout p hu_out, htu]
+    · by_cases hp : (s.tk_delE (u, v)).tk_SegDown sib p
+      · rw [hin c (hp.step _ _ _ hx hop), hin p hp]
+      · have hcs : c ≠ sib := by
+          intro heq; subst heq; exact hpu (hF1.par_unique hx hsib)
+        rw [hout c (tk_SegDown.closed hF1 hx hp hcs), hout p hp]
+        exact hI.tidOK.along (p, c) (tk_mem_delE.1 hx).1 (by rw [← tk_outdeg_delE_ne s hpu]; exact hop)
+  · intro a b ha hb hab
+    have key : ∀ a, s'.IsHead a → s.IsHead a ∧ s'.tidOf a = s.tidOf a := by
+      intro a ha
+      have ha1 : (s.tk_delE (u, v)).IsHead a :=
+        ⟨hG.ids ▸ ha.1, fun p hp => by rw [← hG.outdeg]; exact ha.2 p (hG.edgeList ▸ hp)⟩
+      have hasib : a ≠ sib := by
+        intro heq; subst heq; exact ha1.no_in hsib ho
+      have hhead : s.IsHead a := by
+        by_cases hav : a = v
+        · subst hav; exact hvhead
+        · exact tk_isHead_of_delE hF ha1 hav
+      refine ⟨hhead, hout a ?_⟩
+      intro hseg; exact hseg.not_head hasib ha1
+    rw [(key a ha).2, (key b hb).2]
+    exact hI.tidOK.heads a b (key a ha).1 (key b hb).1 hab
+
+/-- accepted `uDeleteEdge`: track-id invariant bundle preserved + frame (only descendants of the
+    edge's source can change their track id) -/
+theorem tk_uDeleteEdge_tidInv {s : St} (hI : s.tk_TidInv) {e : Edge} {recs}
+    (hok : (s.uDeleteEdge e).2 = .ok recs) :
+    (s.uDeleteEdge e).1.tk_TidInv ∧
+    ∀ n, ¬ s.Anc e.1 n → (s.uDeleteEdge e).1.tidOf n = s.tidOf n := by
+  obtain ⟨u, v⟩ := e
+  have hmem : (u, v) ∈ s.edgeList := tk_hasEdge_iff.1 (tk_uDeleteEdge_hasEdge hok)
+  have hF := hI.forest
+  have hF1 : (s.tk_delE (u, v)).Forest := hF.tk_delE _
+  have hlt := hF.tm_lt hmem
+  have hdesc : ∀ x n, (u, x) ∈ s.edgeList → (s.tk_delE (u, v)).tk_SegDown x n → s.Anc u n := by
+    intro x n hx h
+    exact Anc.cons hx (Anc.mono (fun y hy => (tk_mem_delE.1 hy).1) h.anc)
+  rcases tk_uDeleteEdge_shape hok with ⟨r, ho, hr, hs'⟩ | ⟨sib, t, rs, t2, r2, ho, hh, htu, hrs, ht2, hr2, hs'⟩
+  · simp only at ho hr hs'
+    have hvu : ¬ s.Anc v u := by intro h; have := h.tm_le hF; omega
+    have hv : v ∈ s.ids := hF.dst_mem _ hmem
+    have hch := tk_chainHyp_delE (v := v) hF hI.tidOK hv hvu (tk_tidOf_of_findNode hr)
+    have hw := tk_walk_tid hF1 hv r.tid (s.tk_delE (u, v)).nextTid r.lin (some (s.tk_delE (u, v)).nextLin)
+      (tk_tidOf_of_findNode hr) hch
+    have hG := tk_walk_sameG (s.tk_delE (u, v)) v r.tid (s.tk_delE (u, v)).nextTid r.lin
+      (some (s.tk_delE (u, v)).nextLin)
+    have hmt := tk_walk_maxTid (s.tk_delE (u, v)) v r.tid (s.tk_delE (u, v)).nextTid r.lin
+      (some (s.tk_delE (u, v)).nextLin)
+    rw [hs']
+    have hnt : (s.tk_delE (u, v)).nextTid = s.maxTid + 1 := rfl
+    rw [hnt] at hw hmt
+    rw [hnt]
+    refine ⟨⟨hG.forest hF1, tk_cutTid0 hI hmem ho hG hw.1 hw.2, ?_⟩, ?_⟩
+    · intro n tt hn
+      rw [hmt, tk_delE_maxTid]
+      simp only [Nat.lt_add_one, if_true, gt_iff_lt]
+      by_cases hseg : (s.tk_delE (u, v)).tk_SegDown v n
+      · rw [hw.1 n hseg] at hn; cases hn; exact Nat.le_refl _
+      · rw [hw.2 n hseg] at hn; have := hI.max n tt hn; omega
+    · intro n hn
+      apply hw.2
+      intro hseg; exact hn (hdesc v n hmem hseg)
+  · simp only at ho hh htu hrs ht2 hr2 hs'
+    have hsib1 : (u, sib) ∈ (s.tk_delE (u, v)).edgeList := tk_mem_succs.1 (List.mem_of_head? hh)
+    have hsibE : (u, sib) ∈ s.edgeList := (tk_mem_delE.1 hsib1).1
+    have hsu : ¬ s.Anc sib u := by
+      intro h; have := h.tm_le hF; have := hF.tm_lt hsibE; omega
+    have hsi : sib ∈ s.ids := hF.dst_mem _ hsibE
+    have hch := tk_chainHyp_delE (v := v) hF hI.tidOK hsi hsu (tk_tidOf_of_findNode hrs)
+    have hw := tk_walk_tid hF1 hsi rs.tid t rs.lin none (tk_tidOf_of_findNode hrs) hch
+    have hG2 := tk_walk_sameG (s.tk_delE (u, v)) sib rs.tid t rs.lin none
+    have ht2' : t2 = r2.tid := by
+      have := tk_tidOf_of_findNode hr2
+      rw [ht2] at this; cases this; rfl
+    subst ht2'
+    have hG3 := tk_walk_sameG ((s.tk_delE (u, v)).walk sib rs.tid t rs.lin none) v r2.tid r2.tid r2.lin
+      (some ((s.tk_delE (u, v)).walk sib rs.tid t rs.lin none).nextLin)
+    have hsame := tk_walk_tid_same ((s.tk_delE (u, v)).walk sib rs.tid t rs.lin none) v r2.tid r2.lin
+      (some ((s.tk_delE (u, v)).walk sib rs.tid t rs.lin none).nextLin)
+    have hin : ∀ n, (s.tk_delE (u, v)).tk_SegDown sib n → (s.uDeleteEdge (u, v)).1.tidOf n = some t := by
+      intro n hn; rw [hs', hsame]; exact hw.1 n hn
+    have hout : ∀ n, ¬ (s.tk_delE (u, v)).tk_SegDown sib n →
+        (s.uDeleteEdge (u, v)).1.tidOf n = s.tidOf n := by
+      intro n hn; rw [hs', hsame]; exact hw.2 n hn
+    have hG : tk_SameG (s.tk_delE (u, v)) (s.uDeleteEdge (u, v)).1 := by
+      rw [hs']; exact hG2.trans hG3
+    have htmax : t ≤ s.maxTid := hI.max u t htu
+    refine ⟨⟨hG.forest hF1, tk_cutTid1 hI hmem ho hsib1 htu hG hin hout, ?_⟩, ?_⟩
+    · have hall : ∀ n tt, (s.uDeleteEdge (u, v)).1.tidOf n = some tt → tt ≤ s.maxTid := by
+        intro n tt hn
+        by_cases hseg : (s.tk_delE (u, v)).tk_SegDown sib n
+        · rw [hin n hseg] at hn; cases hn; exact htmax
+        · rw [hout n hseg] at hn; exact hI.max n tt hn
+      have hr2max : r2.tid ≤ s.maxTid := by
+        apply hall v
+        rw [hs', hsame]; exact tk_tidOf_of_findNode hr2
+      intro n tt hn
+      have h1 := hall n tt hn
+      rw [hs', tk_walk_maxTid, tk_walk_maxTid, tk_delE_maxTid]
+      split <;> split <;> omega
+    · intro n hn
+      apply hout
+      intro hseg; exact hn (hdesc sib n hsibE hseg)
+
+/-- a small concrete state for the non-vacuity examples: 1 → 2 → {3, 4} (division at 2),
+    5 → 6 (a skip edge), with consistent ids and bookkeeping -/
+def tk_exState : St :=
+  { nodes := [⟨1, 0, 1, some 1, []⟩, ⟨2, 1, 1, some 1, []⟩, ⟨3, 2, 2, some 1, []⟩,
+              ⟨4, 2, 3, some 1, []⟩, ⟨5, 0, 4, some 2, []⟩, ⟨6, 3, 4, some 2, []⟩],
+    edges := [⟨(1, 2), []⟩, ⟨(2, 3), []⟩, ⟨(2, 4), []⟩, ⟨(5, 6), []⟩],
+    t2n := [(1, [1, 2]), (2, [3]), (3, [4]), (4, [5, 6])],
+    l2n := [(1, [1, 2, 3, 4]), (2, [5, 6])],
+    maxTid := 4, maxLin := 2, counter := 7 }
 
 end St
 end Ft
